@@ -4,53 +4,58 @@ import (
 	"encoding/json"
 	"fmt"
 	"go/ast"
-	"go/token"
 	"go/types"
 	"os"
 	"path/filepath"
 	"sort"
-	"strconv"
 	"strings"
 
-	"golang.org/x/tools/go/cfg"
 	"golang.org/x/tools/go/packages"
 
 	"osmcheck/core"
 )
 
-// Unexported identifiers this file is keyed on (class 3 anchors, sensitive to a pure rename):
-//   (*Datasource).getFromAPI, (*Datasource).baseURL, featureOptions,
-//   FeatureOption.applyFeature / NotesOption.applyNotes (reached through the exported option
-//   interfaces: "the single method of the interface the exported constructor returns").
-// Everything else is resolved through exported API (Datasource, DefaultDatasource, BaseURL,
-// the exported endpoint methods, the error types, At/Limit/MaxDaysClosed) or through roles
-// ("the helper an endpoint tail-calls", "the variable whose address is the decode target").
+// C20 is decided by symbolic execution (c20_sx*.go, c20_val.go): every endpoint method, wrapper, option method and
+// the request function of package osmapi is run forwards with symbolic inputs; calls to functions of the package
+// are inlined, undecided branches fork the path and record the assumption, and the library functions used to build
+// URLs and to talk HTTP are modelled. The obligations (c20_r_*.go) are read off the outcomes (returned values,
+// request/limiter/HTTP events, facts), so they do not depend on how the code is split into helpers, on the form of
+// its branches (if-chain, switch, inverted or merged tests, if-init), on local names, named constants, statement
+// order or on the file a function lives in. For getFromAPI the execution is repeated for every status 100..599.
+//
+// Anchors. Exported API only: Datasource (fields BaseURL, and the one field of "waiter" interface type),
+// DefaultDatasource, the constant BaseURL, the exported endpoint methods and wrappers, (*Datasource).NotFound, the
+// option constructors At/Limit/MaxDaysClosed and the option interfaces *Option, osm.OSM/osm.Change. Unexported
+// functions are found by role: the request function is the one Datasource method with the signature
+// func(context.Context, string, interface{}) error; base-URL methods are Datasource methods func() string;
+// option-joining functions are func([]XOption) (string, error); everything else is reached through calls.
 
 func init() {
 	register(&core.Property{
 		ID:    "C20",
 		Title: "osmapi calls hit the documented endpoint and map statuses to typed errors",
-		Explanation: "Structural necessary conditions decided on /repo/osmapi (non-test files) against the external table tables/api06.json (API v0.6 paths): " +
-			"(H1) every exported *Datasource endpoint method performs exactly one request (getFromAPI, directly or through one tail-called helper) on every path to a success return, at most one on error paths, none in a loop; all net/http request creation/sending sits in getFromAPI, which calls Client.Do exactly once; every package-level wrapper is `return DefaultDatasource.<same name>(<its parameters in order>)`. " +
-			"(H2) every path to Client.Do passes `Limiter != nil` and, on the non-nil side, Limiter.Wait(ctx) whose error is returned. " +
-			"(H3) abstract execution of getFromAPI's control-flow graph for every status 100..599 ends in exactly the typed error of the table (404, 403, 410, 414, other non-200) and reaches the XML decode of the item parameter only for 200; NotFound type-asserts exactly the type returned for 404; the request is a GET; every caller returns getFromAPI's error unchanged. " +
-			"(H4) the URL expression of each endpoint, evaluated symbolically through constant format strings, concatenations and the repository's option/id-list idioms with each hole bound to a method parameter, equals the table entry; baseURL() prefers the configured BaseURL; the URL parameter is what is requested. " +
-			"(H5) each endpoint returns the table's field of the freshly allocated document that was the decode target; `o.X[0]` is dominated by a `len(o.X) != 1` error test on the same field. " +
-			"(H6) At/Limit/MaxDaysClosed build `at=` (UTC, layout 2006-01-02T15:04:05Z), `limit=` (rejected outside 1..10000) and `closed=`; featureOptions joins with `&` and propagates option errors. " +
-			"NOT decided: that encoding/xml returns the server's elements unmodified; URL escaping beyond the presence of QueryEscape on the search query; precision of %f for bounding boxes (6 decimals); that the http.Client follows the request unchanged (redirects, transport); trailing `?`/`&` when no option is given (accepted by the table).",
-		Assumptions: []string{"go/types, go/cfg (x/tools v0.29.0)", "tables/api06.json transcribes the OSM API v0.6 documentation", "fmt verbs %d/%f/%s/%v, strings.Join, strconv.AppendInt(_, _, 10), url.QueryEscape, time.Time.UTC/Format behave as documented", "net/http sends the request it is given; encoding/xml decodes faithfully"},
-		LevelText:   "Structural necessary conditions of the request/response contract, decided for every endpoint method, every wrapper, every status value 100..599 and every path of getFromAPI: one request per call, limiter before the request, status-to-error table, URL shape equal to the external API v0.6 table with parameter-to-position binding, single-element guards, option encodings. Fidelity of the XML decode and of net/http is not decided.",
-		LevelNote:   "Trusts the Go type checker, go/cfg, the documented behaviour of fmt/strings/strconv/net/url/time used in URL building, and the transcription of the API v0.6 documentation in tables/api06.json.",
-		Technique:   "symbolic evaluation of URL expressions (constant format strings from the type checker, parameter binding) against an external path table + CFG path counting, dominance and per-status abstract execution of getFromAPI",
+		Explanation: "Structural necessary conditions decided on /repo/osmapi (non-test files) against the external table tables/api06.json (API v0.6 paths) by symbolic execution: every function is run with symbolic inputs, package functions inlined, each undecided branch explored under both assumptions; the rules read the outcomes, so helper extraction/inlining, branch form, local names, named constants and statement order do not matter. " +
+			"(H1) on every path of every exported *Datasource endpoint method that returns a nil error exactly one request (call of the request function getFromAPI) was made, on every other path at most one, none in a loop; HTTP requests are created/sent only in getFromAPI and helpers only it calls, which performs Client.Do exactly once before decoding, tests Do's error and returns it; every package-level wrapper performs exactly `DefaultDatasource.<same name>(<its parameters in order>)` and returns its results. " +
+			"(H2) every path reaching Client.Do has tested the limiter field against nil and, when it is non-nil, called Wait(ctx) on it before and found its error nil; when Wait fails that error is returned and no request is sent. " +
+			"(H3) executing getFromAPI for every status 100..599, every path with a successful Do ends in exactly the typed error of the table (404, 403, 410, 414, other non-200, the latter recording the status) and in the XML decode of the response body into the item parameter only for 200; NotFound, executed for nil, a foreign error and every error type of the package, is true exactly for the 404 type; the request is a GET created by http.NewRequest; on every endpoint path the request's error is tested and, when non-nil, returned unchanged. " +
+			"(H4) the URL argument of the request, evaluated symbolically on every path (constant format strings, concatenation, option and id-list loops summarised, each hole bound to a method parameter) and merged over the paths (configured vs default base URL, options given or not), equals the table entry; base-URL methods return the configured BaseURL exactly when non-empty, else the default; getFromAPI requests its URL parameter unchanged, without body. " +
+			"(H5) every path returning a nil error returns the table's field of the fresh empty document that was the decode target; element [0] is returned only on paths whose passed tests imply len == 1. " +
+			"(H6) At/Limit/MaxDaysClosed construct an option holding the argument whose apply method appends exactly `at=` (UTC, layout 2006-01-02T15:04:05Z), `limit=` (appended exactly for 1..10000) and `closed=`; option-joining functions join with `&` and return option errors. " +
+			"NOT decided: that encoding/xml returns the server's elements unmodified; URL escaping beyond the presence of QueryEscape on the search query; precision of %f for bounding boxes (6 decimals); that the http.Client follows the request unchanged (redirects, transport); trailing `?`/`&` when no option is given (accepted by the table); the text of error messages and the URL recorded in the typed errors; code shapes outside the executor's model (goroutines, closures, labelled jumps, general loops, writes through pointers or to fields) are reported as undecided, not accepted.",
+		Assumptions: []string{"go/types (x/tools v0.29.0)", "tables/api06.json transcribes the OSM API v0.6 documentation", "fmt verbs %d/%f/%s/%v, strings.Join, strconv.AppendInt/FormatInt/Itoa, url.QueryEscape, time.Time.UTC/Format, append/len/make behave as documented", "net/http sends the request it is given; encoding/xml decodes faithfully", "every option appends a non-empty key=value string (H6), so `options given` and `option string non-empty` coincide", "function values, interface calls other than the option apply methods and the limiter, and library calls that are not modelled yield unknown values; they cannot alter locals of the analysed function"},
+		LevelText:   "Structural necessary conditions of the request/response contract, decided for every endpoint method, every wrapper, every status value 100..599 and every path of getFromAPI by symbolic execution with helpers inlined: one request per call, limiter before the request, status-to-error table, URL shape equal to the external API v0.6 table with parameter-to-position binding, single-element guards, option encodings. Fidelity of the XML decode and of net/http is not decided.",
+		LevelNote:   "Trusts the Go type checker, the model of the symbolic executor (c20_sx*.go), the documented behaviour of fmt/strings/strconv/net/url/time used in URL building, and the transcription of the API v0.6 documentation in tables/api06.json.",
+		Technique:   "forward symbolic execution of the package's functions (inlined calls, path forking with recorded assumptions, loop summaries for option and id loops, modelled fmt/strings/strconv/net/url/time/net/http/encoding/xml calls) + finite-domain execution of getFromAPI per status and of NotFound per error type + merging of per-path URLs against an external path table",
 		DesignRef:   "DESIGN.md §5 C20, Appendix B",
 		Rules: []*core.Rule{
-			{ID: "H1", Floor: 57, Doc: "one request per call; HTTP only in getFromAPI; wrappers delegate to the same-named method", Run: c20H1},
+			{ID: "H1", Floor: 54, Doc: "one request per call; HTTP only in the request function (and its private helpers); wrappers delegate to the same-named method", Run: c20H1},
 			{ID: "H2", Floor: 2, Doc: "limiter wait precedes the request and its error returns", Run: c20H2},
-			{ID: "H3", Floor: 36, Doc: "status table, decode only on 200, NotFound asserts *NotFoundError, GET, errors propagated", Run: c20H3},
+			{ID: "H3", Floor: 35, Doc: "status table per status 100..599, decode only on 200, NotFound true only for the 404 type, GET, errors propagated", Run: c20H3},
 			{ID: "H4", Floor: 28, Doc: "URL shape per endpoint equals tables/api06.json", Run: c20H4},
-			{ID: "H5", Floor: 35, Doc: "results come from the decoded document; single-element calls guarded by len != 1", Run: c20H5},
+			{ID: "H5", Floor: 36, Doc: "results come from the decoded document; element [0] only where the tests passed imply exactly one element", Run: c20H5},
 			{ID: "H6", Floor: 8, Doc: "at=, limit= (1..10000), closed= options and their joining", Run: c20H6},
 		},
+		Benign: c20Benign(),
 		Mutants: []core.Mutant{
 			{Name: "nodeversion-swap-id-version", File: "osmapi/node.go", Find: "fmt.Sprintf(\"%s/node/%d/%d\", ds.baseURL(), id, v)", Replace: "fmt.Sprintf(\"%s/node/%d/%d\", ds.baseURL(), v, id)", ExpectRule: "H4", ExpectConstruct: "(*Datasource).NodeVersion"},
 			{Name: "wayrelations-wrong-segment", File: "osmapi/way.go", Find: "%s/way/%d/relations?%s", Replace: "%s/way/%d/ways?%s", ExpectRule: "H4", ExpectConstruct: "(*Datasource).WayRelations"},
@@ -83,6 +88,11 @@ func init() {
 			{Name: "limit-upper-bound", File: "osmapi/options.go", Find: "10000 < o.n", Replace: "100000 < o.n", ExpectRule: "H6", ExpectConstruct: "range@Limit"},
 			{Name: "limit-ctor-wrong-option", File: "osmapi/options.go", Find: "return &limit{num}", Replace: "return &maxDaysClosed{num}", ExpectRule: "H6", ExpectConstruct: "Limit"},
 			{Name: "closed-key", File: "osmapi/options.go", Find: "\"closed=%d\"", Replace: "\"close=%d\"", ExpectRule: "H6", ExpectConstruct: "apply@MaxDaysClosed"},
+			{Name: "do-error-ignored", File: "osmapi/datasource.go", Find: "\tresp, err := client.Do(req.WithContext(ctx))\n\tif err != nil {\n\t\treturn err\n\t}\n", Replace: "\tresp, _ := client.Do(req.WithContext(ctx))\n", ExpectRule: "H1", ExpectConstruct: "do-once@"},
+			{Name: "option-error-ignored", File: "osmapi/options.go", Find: "\t\tparams, err = o.applyFeature(params)\n\t\tif err != nil {\n\t\t\treturn \"\", err\n\t\t}\n", Replace: "\t\tparams, _ = o.applyFeature(params)\n\t\t_ = err\n", ExpectRule: "H6", ExpectConstruct: "join@featureOptions"},
+			{Name: "way-single-guard-allows-many", File: "osmapi/way.go", Find: "if l := len(o.Ways); l != 1 {", Replace: "if l := len(o.Ways); l < 1 {", ExpectRule: "H5", ExpectConstruct: "single@(*Datasource).Way"},
+			{Name: "relations-csv-separator-unguarded", File: "osmapi/relation.go", Find: "\t\tif i != 0 {\n\t\t\tdata = append(data, byte(','))\n\t\t}\n", Replace: "\t\t_ = i\n\t\tdata = append(data, byte(','))\n", ExpectRule: "H4", ExpectConstruct: "path@(*Datasource).Relations"},
+			{Name: "changeset-helper-swallows-request-error", File: "osmapi/changeset.go", Find: "\tif err := ds.getFromAPI(ctx, url, &css); err != nil {\n\t\treturn nil, err\n\t}\n", Replace: "\tif err := ds.getFromAPI(ctx, url, &css); err != nil {\n\t\treturn nil, fmt.Errorf(\"changeset: %v\", err)\n\t}\n", ExpectRule: "H3", ExpectConstruct: "propagate@(*Datasource).ChangesetWithDiscussion"},
 			{Name: "featureoptions-join-comma", File: "osmapi/options.go", Find: "strings.Join(params, \"&\")", Replace: "strings.Join(params, \",\")", ExpectRule: "H6", ExpectConstruct: "join@featureOptions"},
 		},
 	})
@@ -170,14 +180,16 @@ func c20LoadTable(r *core.R) *c20Table {
 const c20PkgRel = "osmapi"
 
 type c20Ctx struct {
-	r      *core.R
-	pk     *packages.Package
-	info   *types.Info
-	dsType string // pkgpath.Datasource
-	getFn  *FuncInfo
-	funcs  []*FuncInfo
-	byObj  map[*types.Func]*FuncInfo
-	reqFns map[*types.Func]bool // functions that (transitively) perform a request, including getFromAPI
+	r       *core.R
+	pk      *packages.Package
+	info    *types.Info
+	dsType  string // pkgpath.Datasource
+	getFn   *FuncInfo
+	funcs   []*FuncInfo
+	byObj   map[*types.Func]*FuncInfo
+	reqFns  map[*types.Func]bool // functions that (transitively) perform a request, including getFromAPI
+	epRuns  map[*FuncInfo]*c20EpRun
+	getRuns map[int64]*c20GetRun
 }
 
 func c20NewCtx(r *core.R) *c20Ctx {
@@ -196,9 +208,9 @@ func c20NewCtx(r *core.R) *c20Ctx {
 	for _, fi := range cx.funcs {
 		cx.byObj[fi.Obj] = fi
 	}
-	cx.getFn = findFunc(pk, "(*Datasource).getFromAPI")
-	if cx.getFn == nil || cx.getFn.Decl.Body == nil || cx.getFn.Obj.Type().(*types.Signature).Params().Len() != 3 {
-		r.Anchor("(*Datasource).getFromAPI(ctx, url, item)")
+	cx.getFn = c20FindGet(cx)
+	if cx.getFn == nil || cx.getFn.Decl.Body == nil {
+		r.Anchor("the request method of Datasource: exactly one method func(context.Context, string, interface{}) error (getFromAPI)")
 		return nil
 	}
 	cx.reqFns[cx.getFn.Obj] = true
@@ -243,19 +255,6 @@ func (cx *c20Ctx) endpoints() []*FuncInfo {
 	return out
 }
 
-// helpers: unexported methods of Datasource (other than getFromAPI) that perform a request.
-func (cx *c20Ctx) helpers() []*FuncInfo {
-	var out []*FuncInfo
-	for _, fi := range cx.funcs {
-		sig := c20Sig(fi.Obj)
-		if sig.Recv() == nil || namedPath(sig.Recv().Type()) != cx.dsType || fi.Obj.Exported() || fi.Obj == cx.getFn.Obj || !cx.reqFns[fi.Obj] {
-			continue
-		}
-		out = append(out, fi)
-	}
-	return out
-}
-
 // wrappers: exported package-level functions whose first parameter is a context.Context.
 func (cx *c20Ctx) wrappers() []*FuncInfo {
 	var out []*FuncInfo
@@ -268,282 +267,6 @@ func (cx *c20Ctx) wrappers() []*FuncInfo {
 	}
 	sort.Slice(out, func(i, j int) bool { return out[i].Obj.Name() < out[j].Obj.Name() })
 	return out
-}
-
-// reqCalls lists the calls to request functions in fi (function literals included; lit reports one inside a literal).
-func (cx *c20Ctx) reqCalls(fi *FuncInfo) (calls []*ast.CallExpr, lit bool) {
-	depth := 0
-	var stack []ast.Node
-	ast.Inspect(fi.Decl.Body, func(n ast.Node) bool {
-		if n == nil {
-			if _, ok := stack[len(stack)-1].(*ast.FuncLit); ok {
-				depth--
-			}
-			stack = stack[:len(stack)-1]
-			return true
-		}
-		stack = append(stack, n)
-		if _, ok := n.(*ast.FuncLit); ok {
-			depth++
-		}
-		if call, ok := n.(*ast.CallExpr); ok {
-			if fn := callee(cx.info, call); fn != nil && cx.reqFns[fn] {
-				calls = append(calls, call)
-				if depth > 0 {
-					lit = true
-				}
-			}
-		}
-		return true
-	})
-	return
-}
-
-func c20IsNil(info *types.Info, e ast.Expr) bool {
-	id, ok := ast.Unparen(e).(*ast.Ident)
-	return ok && id.Name == "nil" && info.Uses[id] == types.Universe.Lookup("nil")
-}
-
-func c20ParamIndex(fn *types.Func, o types.Object) int {
-	if o == nil {
-		return -99
-	}
-	sig := c20Sig(fn)
-	for i := 0; i < sig.Params().Len(); i++ {
-		if sig.Params().At(i) == o {
-			return i
-		}
-	}
-	return -99
-}
-
-// c20ErrReturned recognises, for a call whose last result is an error,
-//
-//	if err := CALL; err != nil { ...; return ..., err }
-//	x, err := CALL (or =) ; if err != nil { ...; return ..., err }
-//	return CALL
-//
-// where the returned value is exactly the error variable (not wrapped, so its dynamic type survives).
-func c20ErrReturned(info *types.Info, par map[ast.Node]ast.Node, call *ast.CallExpr) bool {
-	if call == nil {
-		return false
-	}
-	var parent ast.Node = par[call]
-	for {
-		if pe, ok := parent.(*ast.ParenExpr); ok {
-			parent = par[pe]
-			continue
-		}
-		break
-	}
-	if ret, ok := parent.(*ast.ReturnStmt); ok {
-		return len(ret.Results) == 1
-	}
-	as, ok := parent.(*ast.AssignStmt)
-	if !ok || len(as.Rhs) != 1 {
-		return false
-	}
-	var errObj types.Object
-	if len(as.Lhs) > 0 {
-		if o := objOf(info, as.Lhs[len(as.Lhs)-1]); o != nil && types.Identical(o.Type(), types.Universe.Lookup("error").Type()) {
-			errObj = o
-		}
-	}
-	if errObj == nil {
-		return false
-	}
-	isErrTest := func(ifs *ast.IfStmt) bool {
-		be, ok := ast.Unparen(ifs.Cond).(*ast.BinaryExpr)
-		if !ok || be.Op != token.NEQ {
-			return false
-		}
-		switch {
-		case objOf(info, be.X) == errObj && c20IsNil(info, be.Y):
-		case objOf(info, be.Y) == errObj && c20IsNil(info, be.X):
-		default:
-			return false
-		}
-		if len(ifs.Body.List) == 0 {
-			return false
-		}
-		ret, ok := ifs.Body.List[len(ifs.Body.List)-1].(*ast.ReturnStmt)
-		if !ok || len(ret.Results) == 0 {
-			return false
-		}
-		// the error variable must not be reassigned inside the body
-		if countAssignsTo(info, ifs.Body, errObj, ifs.Body.Pos(), ifs.Body.End()) > 0 {
-			return false
-		}
-		return objOf(info, ret.Results[len(ret.Results)-1]) == errObj
-	}
-	switch p := par[as].(type) {
-	case *ast.IfStmt:
-		if p.Init == as {
-			return isErrTest(p)
-		}
-	case *ast.BlockStmt:
-		for i, s := range p.List {
-			if s == as && i+1 < len(p.List) {
-				if ifs, ok := p.List[i+1].(*ast.IfStmt); ok && ifs.Init == nil {
-					return isErrTest(ifs)
-				}
-			}
-		}
-	}
-	return false
-}
-
-// ---------------------------------------------------------------------------
-// path counting on go/cfg
-
-type c20Ret struct {
-	ret  *ast.ReturnStmt
-	mask uint8 // bit0: 0 calls possible, bit1: exactly 1, bit2: 2 or more
-}
-
-func c20Shift(m uint8, n int) uint8 {
-	for ; n > 0; n-- {
-		m = ((m & 1) << 1) | ((m & 2) << 1) | (m & 4)
-	}
-	return m
-}
-
-func c20MaskText(m uint8) string {
-	var s []string
-	if m&1 != 0 {
-		s = append(s, "0")
-	}
-	if m&2 != 0 {
-		s = append(s, "1")
-	}
-	if m&4 != 0 {
-		s = append(s, "2 or more")
-	}
-	if len(s) == 0 {
-		return "unreachable"
-	}
-	return strings.Join(s, " or ")
-}
-
-// c20CountAtReturns computes, for every return statement of body, the set of possible numbers of
-// calls satisfying isReq executed on the paths reaching it, and the calls that sit on a CFG cycle.
-func c20CountAtReturns(info *types.Info, body *ast.BlockStmt, isReq func(*ast.CallExpr) bool) (rets []c20Ret, inLoop []*ast.CallExpr) {
-	g := newCFG(info, body)
-	n := map[*cfg.Block]int{}
-	callsIn := map[*cfg.Block][]*ast.CallExpr{}
-	for _, b := range g.Blocks {
-		if !b.Live {
-			continue
-		}
-		for _, nd := range b.Nodes {
-			inspectNoLit(nd, func(x ast.Node) bool {
-				if call, ok := x.(*ast.CallExpr); ok && isReq(call) {
-					n[b]++
-					callsIn[b] = append(callsIn[b], call)
-				}
-				return true
-			})
-		}
-	}
-	in := map[*cfg.Block]uint8{g.Blocks[0]: 1}
-	work := []*cfg.Block{g.Blocks[0]}
-	for len(work) > 0 {
-		b := work[len(work)-1]
-		work = work[:len(work)-1]
-		out := c20Shift(in[b], n[b])
-		for _, s := range b.Succs {
-			if in[s]|out != in[s] {
-				in[s] |= out
-				work = append(work, s)
-			}
-		}
-	}
-	for _, b := range g.Blocks {
-		if !b.Live {
-			continue
-		}
-		for _, nd := range b.Nodes {
-			if ret, ok := nd.(*ast.ReturnStmt); ok {
-				rets = append(rets, c20Ret{ret: ret, mask: c20Shift(in[b], n[b])})
-			}
-		}
-		if len(callsIn[b]) > 0 && len(b.Succs) > 0 && reachableFrom(b.Succs, nil)[b] {
-			inLoop = append(inLoop, callsIn[b]...)
-		}
-	}
-	sort.Slice(rets, func(i, j int) bool { return rets[i].ret.Pos() < rets[j].ret.Pos() })
-	return
-}
-
-// ---------------------------------------------------------------------------
-// H1 one request per call
-
-// c20IsSuccessReturn: the last result is the nil error, or the statement returns the results of
-// a single request-function call (tail delegation).
-func (cx *c20Ctx) isSuccessReturn(ret *ast.ReturnStmt) bool {
-	if len(ret.Results) == 0 {
-		return false
-	}
-	if c20IsNil(cx.info, ret.Results[len(ret.Results)-1]) {
-		return true
-	}
-	if len(ret.Results) == 1 {
-		if call, ok := ast.Unparen(ret.Results[0]).(*ast.CallExpr); ok {
-			if fn := callee(cx.info, call); fn != nil && cx.reqFns[fn] {
-				return true
-			}
-		}
-	}
-	return false
-}
-
-func (cx *c20Ctx) checkOnce(fi *FuncInfo) {
-	r := cx.r
-	c := "once@" + fi.Name()
-	calls, lit := cx.reqCalls(fi)
-	if lit {
-		r.Unknown(c, fi.Decl.Pos(), "a request call sits inside a function literal; accepted idiom: direct calls in the method body")
-		return
-	}
-	if fi.Decl.Type.Results != nil {
-		for _, f := range fi.Decl.Type.Results.List {
-			if len(f.Names) > 0 {
-				r.Unknown(c, fi.Decl.Pos(), "named results: success/error returns cannot be classified; accepted idiom: explicit `return value, nil` / `return nil, err`")
-				return
-			}
-		}
-	}
-	if len(calls) == 0 {
-		r.Bad(c, fi.Decl.Pos(), "endpoint method %s never calls getFromAPI (directly or through a helper): no request is issued for the call", fi.Name())
-		return
-	}
-	rets, inLoop := c20CountAtReturns(cx.info, fi.Decl.Body, func(call *ast.CallExpr) bool {
-		fn := callee(cx.info, call)
-		return fn != nil && cx.reqFns[fn]
-	})
-	if len(inLoop) > 0 {
-		r.Bad(c, inLoop[0].Pos(), "request call `%s` sits in a loop: one call of %s can issue several GETs", src(r.P.Fset, inLoop[0]), fi.Name())
-		return
-	}
-	nSucc := 0
-	for _, rt := range rets {
-		if cx.isSuccessReturn(rt.ret) {
-			nSucc++
-			if rt.mask != 2 {
-				r.Bad(c, rt.ret.Pos(), "success return `%s` is reached after %s request(s); exactly one GET per call is required", src(r.P.Fset, rt.ret), c20MaskText(rt.mask))
-				return
-			}
-		} else if rt.mask&4 != 0 {
-			r.Bad(c, rt.ret.Pos(), "error return `%s` can be reached after two or more requests", src(r.P.Fset, rt.ret))
-			return
-		}
-	}
-	if nSucc == 0 {
-		r.Unknown(c, fi.Decl.Pos(), "no success return (`return v, nil` or `return <request helper>(...)`) found")
-		return
-	}
-	r.OK(c, calls[0].Pos(), "%d success return(s), each reached after exactly one request (`%s`); %d other return(s) after at most one; no request on a CFG cycle",
-		nSucc, src(r.P.Fset, calls[0].Fun), len(rets)-nSucc)
 }
 
 // c20HTTPCall classifies calls that create or send HTTP requests.
@@ -574,819 +297,6 @@ func c20HTTPCall(fn *types.Func) string {
 	}
 	return ""
 }
-
-func c20H1(r *core.R) {
-	cx := c20NewCtx(r)
-	if cx == nil {
-		return
-	}
-	eps := cx.endpoints()
-	r.Stat("endpoint_methods", len(eps))
-	for _, fi := range eps {
-		cx.checkOnce(fi)
-	}
-	for _, fi := range cx.helpers() {
-		cx.checkOnce(fi)
-	}
-	// wrappers
-	ws := cx.wrappers()
-	r.Stat("package_level_wrappers", len(ws))
-	defDS := cx.pk.Types.Scope().Lookup("DefaultDatasource")
-	if defDS == nil {
-		r.Anchor("osmapi.DefaultDatasource")
-	}
-	for _, fi := range ws {
-		c := "wrapper@" + fi.Obj.Name()
-		sig := c20Sig(fi.Obj)
-		if len(fi.Decl.Body.List) != 1 {
-			r.Unknown(c, fi.Decl.Pos(), "body is not the single statement `return DefaultDatasource.%s(...)`", fi.Obj.Name())
-			continue
-		}
-		ret, ok := fi.Decl.Body.List[0].(*ast.ReturnStmt)
-		if !ok || len(ret.Results) != 1 {
-			r.Unknown(c, fi.Decl.Pos(), "body is not the single statement `return DefaultDatasource.%s(...)`", fi.Obj.Name())
-			continue
-		}
-		call, ok := ast.Unparen(ret.Results[0]).(*ast.CallExpr)
-		if !ok {
-			r.Unknown(c, ret.Pos(), "`%s` does not return a method call", src(r.P.Fset, ret))
-			continue
-		}
-		sel, ok := ast.Unparen(call.Fun).(*ast.SelectorExpr)
-		fn := callee(cx.info, call)
-		switch {
-		case !ok || defDS == nil || objOf(cx.info, sel.X) != defDS:
-			r.Bad(c, call.Pos(), "`%s` is not a call on the package variable DefaultDatasource: the convenience function does not use the default datasource (client, base URL, limiter)", src(r.P.Fset, call))
-			continue
-		case !isMethod(fn, cx.dsType, fi.Obj.Name()):
-			r.Bad(c, call.Pos(), "`%s` delegates to %s instead of the same-named method (*Datasource).%s: osmapi.%s hits another endpoint", src(r.P.Fset, call), funcName(fn), fi.Obj.Name(), fi.Obj.Name())
-			continue
-		}
-		bad := ""
-		if len(call.Args) != sig.Params().Len() {
-			bad = fmt.Sprintf("passes %d argument(s) for its %d parameter(s)", len(call.Args), sig.Params().Len())
-		} else {
-			for i, a := range call.Args {
-				if objOf(cx.info, a) != sig.Params().At(i) {
-					bad = fmt.Sprintf("argument %d is `%s`, not its own parameter %s", i+1, src(r.P.Fset, a), sig.Params().At(i).Name())
-					break
-				}
-			}
-			if bad == "" && sig.Variadic() != call.Ellipsis.IsValid() {
-				bad = "the variadic options are not forwarded with `...`"
-			}
-		}
-		if bad != "" {
-			r.Bad(c, call.Pos(), "`%s` %s: the wrapper must forward exactly its parameters in order", src(r.P.Fset, call), bad)
-			continue
-		}
-		r.OK(c, call.Pos(), "`return DefaultDatasource.%s(%d parameter(s) in order)`", fi.Obj.Name(), sig.Params().Len())
-	}
-
-	// HTTP request creation / sending only inside getFromAPI
-	nScanned, nOutside := 0, 0
-	seenKinds := map[string]int{}
-	scan := func(where string, root ast.Node, inGet bool) {
-		nScanned++
-		ast.Inspect(root, func(n ast.Node) bool {
-			call, ok := n.(*ast.CallExpr)
-			if !ok {
-				return true
-			}
-			kind := c20HTTPCall(callee(cx.info, call))
-			if kind == "" {
-				return true
-			}
-			c := "http-call@" + where + " " + kind
-			if inGet {
-				seenKinds[kind]++
-				r.OK(c, call.Pos(), "`%s` is inside getFromAPI", src(r.P.Fset, call))
-			} else {
-				nOutside++
-				r.Bad(c, call.Pos(), "`%s` creates or sends an HTTP request outside getFromAPI: it bypasses the rate limiter and the status-to-error mapping and adds a request to the call", src(r.P.Fset, call))
-			}
-			return true
-		})
-	}
-	for _, fi := range cx.funcs {
-		scan(fi.Name(), fi.Decl.Body, fi.Obj == cx.getFn.Obj)
-	}
-	for _, f := range cx.pk.Syntax {
-		for _, d := range f.Decls {
-			if gd, ok := d.(*ast.GenDecl); ok && gd.Tok == token.VAR {
-				scan("package-level var", gd, false)
-			}
-		}
-	}
-	r.Stat("functions_scanned_for_http", nScanned)
-	if nOutside == 0 {
-		r.OKTrivial("no-http-outside@osmapi", cx.getFn.Decl.Pos(), "%d function bodies and package-level initialisers scanned: no Client.Do/Get/Post/Head, http.Get/Post/Head, NewRequest or RoundTrip call outside getFromAPI", nScanned)
-	}
-	// getFromAPI itself: Client.Do exactly once on every path to the decode
-	c := "do-once@" + cx.getFn.Name()
-	isDo := func(call *ast.CallExpr) bool { return c20HTTPCall(callee(cx.info, call)) == "Client.Do" }
-	rets, inLoop := c20CountAtReturns(cx.info, cx.getFn.Decl.Body, isDo)
-	switch {
-	case seenKinds["Client.Do"] == 0:
-		r.Bad(c, cx.getFn.Decl.Pos(), "getFromAPI never calls (*http.Client).Do")
-	case len(inLoop) > 0:
-		r.Bad(c, inLoop[0].Pos(), "`%s` sits in a loop: getFromAPI can send several requests", src(r.P.Fset, inLoop[0]))
-	default:
-		ok, n := true, 0
-		for _, rt := range rets {
-			isDecode := false
-			ast.Inspect(rt.ret, func(x ast.Node) bool {
-				if call, k := x.(*ast.CallExpr); k && isMethod(callee(cx.info, call), "encoding/xml.Decoder", "Decode") {
-					isDecode = true
-				}
-				return true
-			})
-			if isDecode {
-				n++
-				if rt.mask != 2 {
-					r.Bad(c, rt.ret.Pos(), "the decode return is reached after %s Do call(s)", c20MaskText(rt.mask))
-					ok = false
-				}
-			} else if rt.mask&4 != 0 {
-				r.Bad(c, rt.ret.Pos(), "`%s` can be reached after two or more Do calls", src(r.P.Fset, rt.ret))
-				ok = false
-			}
-		}
-		if ok && n == 0 {
-			r.Unknown(c, cx.getFn.Decl.Pos(), "no return through (*xml.Decoder).Decode found in getFromAPI")
-		} else if ok {
-			r.OK(c, cx.getFn.Decl.Pos(), "every path to the decode return passes Client.Do exactly once; no other return after more than one; Do is not on a CFG cycle")
-		}
-	}
-}
-
-// ---------------------------------------------------------------------------
-// getFromAPI model shared by H2/H3/H4
-
-type c20Get struct {
-	cx      *c20Ctx
-	fi      *FuncInfo
-	g       *cfg.CFG
-	dom     map[*cfg.Block]map[*cfg.Block]bool
-	par     map[ast.Node]ast.Node
-	recv    types.Object
-	ctxP    types.Object
-	urlP    types.Object
-	itemP   types.Object
-	do      *ast.CallExpr
-	doBlock *cfg.Block
-	doIdx   int
-	respObj types.Object // variable holding the *http.Response of Do
-	afterDo *cfg.Block   // successor taken when Do's error is nil
-	newReq  *ast.CallExpr
-	reqObj  types.Object
-}
-
-func c20NewGet(cx *c20Ctx) *c20Get {
-	r := cx.r
-	fi := cx.getFn
-	sig := c20Sig(fi.Obj)
-	gt := &c20Get{cx: cx, fi: fi, recv: sig.Recv(), ctxP: sig.Params().At(0), urlP: sig.Params().At(1), itemP: sig.Params().At(2)}
-	gt.g = newCFG(cx.info, fi.Decl.Body)
-	gt.dom = dominators(gt.g)
-	gt.par = parentsOf(r.P, fi)
-	var dos, reqs []*ast.CallExpr
-	inspectNoLit(fi.Decl.Body, func(n ast.Node) bool {
-		if call, ok := n.(*ast.CallExpr); ok {
-			switch c20HTTPCall(callee(cx.info, call)) {
-			case "Client.Do":
-				dos = append(dos, call)
-			case "NewRequest", "NewRequestWithContext":
-				reqs = append(reqs, call)
-			}
-		}
-		return true
-	})
-	if len(dos) != 1 {
-		r.Anchor(fmt.Sprintf("exactly one (*http.Client).Do call in getFromAPI (found %d)", len(dos)))
-		return nil
-	}
-	gt.do = dos[0]
-	gt.doBlock, gt.doIdx = blockOf(gt.g, gt.do.Pos())
-	if gt.doBlock == nil {
-		r.Anchor("Client.Do call located in the control-flow graph of getFromAPI")
-		return nil
-	}
-	if len(reqs) == 1 {
-		gt.newReq = reqs[0]
-		if as, ok := gt.par[gt.newReq].(*ast.AssignStmt); ok && len(as.Lhs) >= 1 {
-			gt.reqObj = objOf(cx.info, as.Lhs[0])
-		}
-	}
-	// resp, err := client.Do(...); if err != nil { return err }
-	if as, ok := gt.par[gt.do].(*ast.AssignStmt); ok && len(as.Lhs) == 2 && len(as.Rhs) == 1 {
-		gt.respObj = objOf(cx.info, as.Lhs[0])
-		errObj := objOf(cx.info, as.Lhs[1])
-		if c20ErrReturned(cx.info, gt.par, gt.do) && len(gt.doBlock.Succs) == 2 {
-			if be, ok := ast.Unparen(lastExpr(gt.doBlock)).(*ast.BinaryExpr); ok && be.Op == token.NEQ && (objOf(cx.info, be.X) == errObj || objOf(cx.info, be.Y) == errObj) {
-				gt.afterDo = gt.doBlock.Succs[1]
-			}
-		}
-	}
-	return gt
-}
-
-// ---------------------------------------------------------------------------
-// H2 limiter first
-
-func c20H2(r *core.R) {
-	cx := c20NewCtx(r)
-	if cx == nil {
-		return
-	}
-	gt := c20NewGet(cx)
-	if gt == nil {
-		return
-	}
-	info := cx.info
-	c1 := "wait-before-do@" + gt.fi.Name()
-	c2 := "wait-error@" + gt.fi.Name()
-	// limiter test: <recv>.Limiter != nil / == nil
-	isLimiter := func(e ast.Expr) bool {
-		f := fieldOf(info, e)
-		return f != nil && f.Name() == "Limiter" && f.Exported() && rootObj(info, e) == gt.recv
-	}
-	type test struct {
-		b      *cfg.Block
-		nonNil *cfg.Block
-		expr   ast.Expr
-		lim    ast.Expr
-	}
-	var tests []test
-	for _, b := range gt.g.Blocks {
-		if !b.Live || len(b.Succs) != 2 {
-			continue
-		}
-		be, ok := ast.Unparen(lastExpr(b)).(*ast.BinaryExpr)
-		if !ok || (be.Op != token.NEQ && be.Op != token.EQL) {
-			continue
-		}
-		var lim ast.Expr
-		switch {
-		case isLimiter(be.X) && c20IsNil(info, be.Y):
-			lim = be.X
-		case isLimiter(be.Y) && c20IsNil(info, be.X):
-			lim = be.Y
-		default:
-			continue
-		}
-		t := test{b: b, expr: be, lim: lim, nonNil: b.Succs[0]}
-		if be.Op == token.EQL {
-			t.nonNil = b.Succs[1]
-		}
-		tests = append(tests, t)
-	}
-	var waits []*ast.CallExpr
-	inspectNoLit(gt.fi.Decl.Body, func(n ast.Node) bool {
-		call, ok := n.(*ast.CallExpr)
-		if !ok || len(call.Args) != 1 {
-			return true
-		}
-		fn := callee(info, call)
-		sel, ok := ast.Unparen(call.Fun).(*ast.SelectorExpr)
-		if ok && fn != nil && fn.Name() == "Wait" && isLimiter(sel.X) {
-			waits = append(waits, call)
-		}
-		return true
-	})
-	if len(tests) == 0 {
-		r.Bad(c1, gt.do.Pos(), "getFromAPI has no `%s.Limiter != nil` test before `%s`: with a limiter configured the request is sent without waiting (or a nil limiter is dereferenced)", gt.recv.Name(), src(r.P.Fset, gt.do))
-		return
-	}
-	var okWait *ast.CallExpr
-	why := ""
-	for _, t := range tests {
-		if t.b != gt.doBlock && !gt.dom[gt.doBlock][t.b] {
-			why = fmt.Sprintf("the test `%s` does not dominate the Do call: some path reaches the request without it", src(r.P.Fset, t.expr))
-			continue
-		}
-		if len(waits) == 0 {
-			why = fmt.Sprintf("no `%s.Wait(ctx)` call on the non-nil side of `%s`: the request is sent without waiting on the configured rate limiter", src(r.P.Fset, t.lim), src(r.P.Fset, t.expr))
-			continue
-		}
-		for _, w := range waits {
-			wb, wi := blockOf(gt.g, w.Pos())
-			if wb == nil {
-				continue
-			}
-			if objOf(info, w.Args[0]) != gt.ctxP {
-				why = fmt.Sprintf("`%s` does not wait on the call's context parameter %s", src(r.P.Fset, w), gt.ctxP.Name())
-				continue
-			}
-			side := reachableFrom([]*cfg.Block{t.nonNil}, nil)
-			if !side[wb] {
-				why = fmt.Sprintf("`%s` is not on the non-nil side of `%s`", src(r.P.Fset, w), src(r.P.Fset, t.expr))
-				continue
-			}
-			skip := reachableFrom([]*cfg.Block{t.nonNil}, func(b *cfg.Block) bool { return b == wb })
-			switch {
-			case wb == gt.doBlock && wi > gt.doIdx:
-				why = fmt.Sprintf("`%s` comes after the Do call", src(r.P.Fset, w))
-				continue
-			case wb != gt.doBlock && skip[gt.doBlock]:
-				why = fmt.Sprintf("a path from the non-nil side of `%s` reaches `%s` without passing `%s`", src(r.P.Fset, t.expr), src(r.P.Fset, gt.do), src(r.P.Fset, w))
-				continue
-			case wb != gt.doBlock && !reachableFrom([]*cfg.Block{wb}, nil)[gt.doBlock]:
-				why = fmt.Sprintf("`%s` does not precede the Do call", src(r.P.Fset, w))
-				continue
-			}
-			okWait = w
-			r.OK(c1, w.Pos(), "`%s` dominates `%s`; every path from its non-nil edge to the request passes `%s`", src(r.P.Fset, t.expr), src(r.P.Fset, gt.do), src(r.P.Fset, w))
-			break
-		}
-		if okWait != nil {
-			break
-		}
-	}
-	if okWait == nil {
-		r.Bad(c1, gt.do.Pos(), "%s", why)
-		if len(waits) > 0 {
-			okWait = waits[0]
-		}
-	}
-	if okWait == nil {
-		r.Bad(c2, gt.do.Pos(), "no Limiter.Wait call whose error could be returned")
-		return
-	}
-	if c20ErrReturned(info, gt.par, okWait) {
-		r.OK(c2, okWait.Pos(), "the error of `%s` is tested `!= nil` right after the call and returned unchanged, so a cancelled or failed wait sends no request", src(r.P.Fset, okWait))
-	} else {
-		r.Bad(c2, okWait.Pos(), "the error of `%s` is not returned when non-nil: after a failed or cancelled wait the request is sent anyway", src(r.P.Fset, okWait))
-	}
-}
-
-// ---------------------------------------------------------------------------
-// H3 status table
-
-// c20EvalStatusCond evaluates a condition for a concrete status value.
-// known=false: the condition does not depend (only) on the status code.
-func (gt *c20Get) evalStatusCond(e ast.Expr, s int64) (val, known bool) {
-	info := gt.cx.info
-	e = ast.Unparen(e)
-	switch x := e.(type) {
-	case *ast.UnaryExpr:
-		if x.Op == token.NOT {
-			v, k := gt.evalStatusCond(x.X, s)
-			return !v, k
-		}
-	case *ast.BinaryExpr:
-		switch x.Op {
-		case token.LAND, token.LOR:
-			a, ka := gt.evalStatusCond(x.X, s)
-			b, kb := gt.evalStatusCond(x.Y, s)
-			if x.Op == token.LAND {
-				if (ka && !a) || (kb && !b) {
-					return false, true
-				}
-				return a && b, ka && kb
-			}
-			if (ka && a) || (kb && b) {
-				return true, true
-			}
-			return a || b, ka && kb
-		case token.EQL, token.NEQ, token.LSS, token.LEQ, token.GTR, token.GEQ:
-			var c int64
-			op := x.Op
-			if gt.isStatus(x.X) {
-				v, ok := constInt(info, x.Y)
-				if !ok {
-					return false, false
-				}
-				c = v
-			} else if gt.isStatus(x.Y) {
-				v, ok := constInt(info, x.X)
-				if !ok {
-					return false, false
-				}
-				c = v
-				// mirror: c op s  ==  s op' c
-				switch op {
-				case token.LSS:
-					op = token.GTR
-				case token.LEQ:
-					op = token.GEQ
-				case token.GTR:
-					op = token.LSS
-				case token.GEQ:
-					op = token.LEQ
-				}
-			} else {
-				return false, false
-			}
-			switch op {
-			case token.EQL:
-				return s == c, true
-			case token.NEQ:
-				return s != c, true
-			case token.LSS:
-				return s < c, true
-			case token.LEQ:
-				return s <= c, true
-			case token.GTR:
-				return s > c, true
-			case token.GEQ:
-				return s >= c, true
-			}
-		}
-	}
-	return false, false
-}
-
-// isStatus: <resp>.StatusCode of the response returned by Do.
-func (gt *c20Get) isStatus(e ast.Expr) bool {
-	f := fieldOf(gt.cx.info, e)
-	if f == nil || f.Name() != "StatusCode" || f.Pkg() == nil || f.Pkg().Path() != "net/http" {
-		return false
-	}
-	return rootObj(gt.cx.info, e) == gt.respObj
-}
-
-type c20Outcome struct {
-	kind string // "err:<Type>", "decode", "nil", "other"
-	ret  *ast.ReturnStmt
-	text string
-}
-
-// outcomes runs the CFG after a successful Do for status s.
-func (gt *c20Get) outcomes(s int64) (outs []c20Outcome, ambiguous string) {
-	info := gt.cx.info
-	fset := gt.cx.r.P.Fset
-	seen := map[*cfg.Block]bool{}
-	var walk func(b *cfg.Block)
-	walk = func(b *cfg.Block) {
-		if seen[b] {
-			return
-		}
-		seen[b] = true
-		for _, n := range b.Nodes {
-			if ret, ok := n.(*ast.ReturnStmt); ok {
-				o := c20Outcome{kind: "other", ret: ret, text: src(fset, ret)}
-				if len(ret.Results) == 1 {
-					res := ast.Unparen(ret.Results[0])
-					if c20IsNil(info, res) {
-						o.kind = "nil"
-					} else if ue, ok := res.(*ast.UnaryExpr); ok && ue.Op == token.AND {
-						if cl, ok := ast.Unparen(ue.X).(*ast.CompositeLit); ok {
-							if nt, ok := info.TypeOf(cl).(*types.Named); ok && nt.Obj().Pkg() == gt.cx.pk.Types {
-								o.kind = "err:" + nt.Obj().Name()
-							}
-						}
-					} else if call, ok := res.(*ast.CallExpr); ok && isMethod(callee(info, call), "encoding/xml.Decoder", "Decode") {
-						o.kind = "decode"
-					}
-				}
-				outs = append(outs, o)
-				return
-			}
-		}
-		switch len(b.Succs) {
-		case 0:
-			outs = append(outs, c20Outcome{kind: "other", text: "no return (panic or end of function)"})
-		case 1:
-			walk(b.Succs[0])
-		case 2:
-			cond := lastExpr(b)
-			if cond != nil {
-				if v, known := gt.evalStatusCond(cond, s); known {
-					if v {
-						walk(b.Succs[0])
-					} else {
-						walk(b.Succs[1])
-					}
-					return
-				}
-			}
-			if ambiguous == "" {
-				ambiguous = "branch at " + gt.cx.r.P.Rel(b.Nodes[len(b.Nodes)-1].Pos()) + " `" + src(fset, b.Nodes[len(b.Nodes)-1]) + "` is not a comparison of the response's StatusCode with constants"
-			}
-			walk(b.Succs[0])
-			walk(b.Succs[1])
-		default:
-			if ambiguous == "" {
-				ambiguous = "multi-way branch (switch/select) after Do; accepted idiom: if-chain on resp.StatusCode"
-			}
-			for _, sc := range b.Succs {
-				walk(sc)
-			}
-		}
-	}
-	walk(gt.afterDo)
-	return
-}
-
-func c20H3(r *core.R) {
-	cx := c20NewCtx(r)
-	if cx == nil {
-		return
-	}
-	tab := c20LoadTable(r)
-	gt := c20NewGet(cx)
-	if gt == nil || tab == nil {
-		return
-	}
-	info := cx.info
-	if gt.afterDo == nil || gt.respObj == nil {
-		r.Unknown("status table", gt.do.Pos(), "`%s` is not of the form `resp, err := client.Do(..); if err != nil { return err }`: the point where the response is available was not identified", src(r.P.Fset, gt.par[gt.do]))
-	} else {
-		want := func(s int64) string {
-			if s == tab.OKStatus {
-				return "decode"
-			}
-			if t, ok := tab.Statuses[strconv.FormatInt(s, 10)]; ok {
-				return "err:" + t
-			}
-			return "err:" + tab.OtherStatus
-		}
-		type verdict struct {
-			bad, unk string
-			pos      token.Pos
-			proof    string
-		}
-		res := map[string]*verdict{}
-		key := func(s int64) string {
-			if s == tab.OKStatus {
-				return fmt.Sprintf("status %d", s)
-			}
-			if _, ok := tab.Statuses[strconv.FormatInt(s, 10)]; ok {
-				return fmt.Sprintf("status %d", s)
-			}
-			return "status other"
-		}
-		nOther := 0
-		for s := int64(100); s <= 599; s++ {
-			k := key(s)
-			v := res[k]
-			if v == nil {
-				v = &verdict{pos: gt.do.Pos()}
-				res[k] = v
-			}
-			if k == "status other" {
-				nOther++
-			}
-			if v.bad != "" || v.unk != "" {
-				continue
-			}
-			outs, amb := gt.outcomes(s)
-			w := want(s)
-			okAll := len(outs) > 0
-			for _, o := range outs {
-				if o.kind != w {
-					okAll = false
-				}
-			}
-			if okAll {
-				if outs[0].ret != nil {
-					v.pos = outs[0].ret.Pos()
-				}
-				if v.proof == "" {
-					v.proof = fmt.Sprintf("the only return reachable after a successful Do with StatusCode %d is `%s`", s, outs[0].text)
-				}
-				// the generic error must carry the code actually received
-				if k == "status other" && outs[0].ret != nil && !usesField(info, outs[0].ret, c20StatusField(gt)) {
-					v.bad = fmt.Sprintf("`%s` does not record resp.StatusCode in the error", outs[0].text)
-				}
-				continue
-			}
-			if amb != "" && len(outs) > 1 {
-				v.unk = fmt.Sprintf("for StatusCode %d the outcome could not be decided: %s", s, amb)
-				continue
-			}
-			var got []string
-			for _, o := range outs {
-				got = append(got, "`"+o.text+"`")
-				if o.ret != nil {
-					v.pos = o.ret.Pos()
-				}
-			}
-			what := strings.TrimPrefix(w, "err:")
-			if w == "decode" {
-				what = "the XML decode of the body"
-			} else {
-				what = "&" + what + "{...}"
-			}
-			v.bad = fmt.Sprintf("with StatusCode %d getFromAPI ends in %s; the API contract requires %s", s, strings.Join(got, " / "), what)
-			if w != "decode" {
-				for _, o := range outs {
-					if o.kind == "decode" || o.kind == "nil" {
-						v.bad += " (a non-200 response is decoded/accepted: partial or error-page data is returned as success)"
-						break
-					}
-				}
-			}
-		}
-		var keys []string
-		for k := range res {
-			keys = append(keys, k)
-		}
-		sort.Strings(keys)
-		for _, k := range keys {
-			v := res[k]
-			switch {
-			case v.unk != "":
-				r.Unknown(k, v.pos, "%s", v.unk)
-			case v.bad != "":
-				r.Bad(k, v.pos, "%s", v.bad)
-			case k == "status other":
-				r.OK(k, v.pos, "all %d other status values in 100..599: %s (abstract execution of the CFG per value)", nOther, v.proof)
-			default:
-				r.OK(k, v.pos, "%s", v.proof)
-			}
-		}
-		// decode target
-		c := "decode target"
-		var dec *ast.CallExpr
-		inspectNoLit(gt.fi.Decl.Body, func(n ast.Node) bool {
-			if call, ok := n.(*ast.CallExpr); ok && isMethod(callee(info, call), "encoding/xml.Decoder", "Decode") {
-				dec = call
-			}
-			return true
-		})
-		switch {
-		case dec == nil:
-			r.Bad(c, gt.fi.Decl.Pos(), "getFromAPI never decodes the response body with encoding/xml")
-		case len(dec.Args) != 1 || objOf(info, dec.Args[0]) != gt.itemP:
-			r.Bad(c, dec.Pos(), "`%s` does not decode into the caller's item parameter %s", src(r.P.Fset, dec), gt.itemP.Name())
-		default:
-			okBody := false
-			if sel, ok := ast.Unparen(dec.Fun).(*ast.SelectorExpr); ok {
-				if nd, ok := ast.Unparen(sel.X).(*ast.CallExpr); ok && isPkgFunc(callee(info, nd), "encoding/xml", "NewDecoder") && len(nd.Args) == 1 {
-					if f := fieldOf(info, nd.Args[0]); f != nil && f.Name() == "Body" && rootObj(info, nd.Args[0]) == gt.respObj {
-						okBody = true
-					}
-				}
-			}
-			if okBody {
-				r.OK(c, dec.Pos(), "`%s` reads the Body of the response returned by Do into parameter %s", src(r.P.Fset, dec), gt.itemP.Name())
-			} else {
-				r.Bad(c, dec.Pos(), "`%s` does not read the Body of the response returned by Do", src(r.P.Fset, dec))
-			}
-		}
-	}
-
-	// NotFound
-	c20CheckNotFound(cx, gt, tab)
-
-	// request method
-	c := "request method@" + gt.fi.Name()
-	switch {
-	case gt.newReq == nil:
-		r.Unknown(c, gt.do.Pos(), "exactly one http.NewRequest/NewRequestWithContext call expected in getFromAPI")
-	default:
-		mi := 0
-		if callee(info, gt.newReq).Name() == "NewRequestWithContext" {
-			mi = 1
-		}
-		m, ok := constString(info, gt.newReq.Args[mi])
-		arg := ast.Unparen(gt.do.Args[0])
-		// Do(req) or Do(req.WithContext(ctx))
-		fromReq := objOf(info, arg) == gt.reqObj && gt.reqObj != nil
-		if call, isCall := arg.(*ast.CallExpr); isCall && isMethod(callee(info, call), "net/http.Request", "WithContext") {
-			if sel, k := ast.Unparen(call.Fun).(*ast.SelectorExpr); k && objOf(info, sel.X) == gt.reqObj && gt.reqObj != nil {
-				fromReq = true
-			}
-		}
-		switch {
-		case !ok:
-			r.Unknown(c, gt.newReq.Pos(), "the request method `%s` is not a constant", src(r.P.Fset, gt.newReq.Args[mi]))
-		case m != tab.HTTPMethod:
-			r.Bad(c, gt.newReq.Pos(), "`%s` creates a %q request; every read call of API v0.6 used here is a %s", src(r.P.Fset, gt.newReq), m, tab.HTTPMethod)
-		case !fromReq:
-			r.Bad(c, gt.do.Pos(), "`%s` does not send the request created by `%s`", src(r.P.Fset, gt.do), src(r.P.Fset, gt.newReq))
-		default:
-			r.OK(c, gt.newReq.Pos(), "`%s` (constant method %q) is the request passed to `%s`", src(r.P.Fset, gt.newReq), m, src(r.P.Fset, gt.do))
-		}
-	}
-
-	// every caller returns getFromAPI's error unchanged
-	for _, fi := range cx.funcs {
-		if fi.Obj == cx.getFn.Obj || c20Sig(fi.Obj).Recv() == nil {
-			continue
-		}
-		calls, lit := cx.reqCalls(fi)
-		par := parentsOf(r.P, fi)
-		for _, call := range calls {
-			c := "propagate@" + fi.Name()
-			if lit {
-				r.Unknown(c, call.Pos(), "request call inside a function literal")
-				continue
-			}
-			if c20ErrReturned(info, par, call) {
-				r.OK(c, call.Pos(), "the error of `%s` is returned unchanged when non-nil (typed status errors reach the caller, no partial data)", src(r.P.Fset, call.Fun))
-			} else {
-				r.Bad(c, call.Pos(), "the error of `%s` is not returned unchanged when non-nil: a 404/403/410/414/other status would yield a (partial or empty) result instead of its typed error", src(r.P.Fset, call))
-			}
-		}
-	}
-}
-
-func c20StatusField(gt *c20Get) *types.Var {
-	if gt.respObj == nil {
-		return nil
-	}
-	t := gt.respObj.Type()
-	if pt, ok := t.(*types.Pointer); ok {
-		t = pt.Elem()
-	}
-	st, _ := t.Underlying().(*types.Struct)
-	if st == nil {
-		return nil
-	}
-	for i := 0; i < st.NumFields(); i++ {
-		if st.Field(i).Name() == "StatusCode" {
-			return st.Field(i)
-		}
-	}
-	return nil
-}
-
-func c20CheckNotFound(cx *c20Ctx, gt *c20Get, tab *c20Table) {
-	r := cx.r
-	info := cx.info
-	fi := findFunc(cx.pk, "(*Datasource).NotFound")
-	if fi == nil {
-		r.Anchor("(*Datasource).NotFound")
-		return
-	}
-	c := "NotFound()"
-	sig := c20Sig(fi.Obj)
-	if sig.Params().Len() != 1 {
-		r.Anchor("(*Datasource).NotFound(err error)")
-		return
-	}
-	errP := sig.Params().At(0)
-	nt, _ := structType(cx.pk, tab.NotFoundType)
-	if nt == nil {
-		r.Anchor("osmapi." + tab.NotFoundType)
-		return
-	}
-	wantT := types.NewPointer(nt)
-	var asserts []*ast.TypeAssertExpr
-	unknownForm := ""
-	ast.Inspect(fi.Decl.Body, func(n ast.Node) bool {
-		switch x := n.(type) {
-		case *ast.TypeAssertExpr:
-			asserts = append(asserts, x)
-		case *ast.TypeSwitchStmt:
-			unknownForm = "type switch"
-		case *ast.CallExpr:
-			if fn := callee(info, x); isPkgFunc(fn, "errors", "As") || isPkgFunc(fn, "errors", "Is") {
-				unknownForm = "errors.As/Is"
-			}
-		}
-		return true
-	})
-	if unknownForm != "" || len(asserts) != 1 {
-		r.Unknown(c, fi.Decl.Pos(), "NotFound is not the enumerated idiom `_, ok := err.(*%s); return ok` (%d type assertion(s) %s)", tab.NotFoundType, len(asserts), unknownForm)
-		return
-	}
-	ta := asserts[0]
-	if objOf(info, ta.X) != errP {
-		r.Bad(c, ta.Pos(), "`%s` does not test the error parameter", src(r.P.Fset, ta))
-		return
-	}
-	if ta.Type == nil || !types.Identical(info.TypeOf(ta.Type), wantT) {
-		r.Bad(c, ta.Pos(), "`%s` asserts %s; the not-found test must be true exactly for *%s, the type getFromAPI returns for 404 (it would be true for another status, or never)", src(r.P.Fset, ta), src(r.P.Fset, ta.Type), tab.NotFoundType)
-		return
-	}
-	as, ok := parentsOf(r.P, fi)[ta].(*ast.AssignStmt)
-	if !ok || len(as.Lhs) != 2 {
-		r.Unknown(c, ta.Pos(), "the assertion is not of the comma-ok form")
-		return
-	}
-	okObj := objOf(info, as.Lhs[1])
-	nret := 0
-	bad := ""
-	ast.Inspect(fi.Decl.Body, func(n ast.Node) bool {
-		ret, isRet := n.(*ast.ReturnStmt)
-		if !isRet || len(ret.Results) != 1 {
-			return true
-		}
-		nret++
-		if tv := info.Types[ret.Results[0]]; tv.Value != nil {
-			if tv.Value.String() != "false" {
-				bad = "`" + src(r.P.Fset, ret) + "` answers true without the type test"
-			}
-			return true
-		}
-		if objOf(info, ret.Results[0]) != okObj || okObj == nil || ret.Pos() < as.Pos() {
-			bad = "`" + src(r.P.Fset, ret) + "` does not return the result of the type assertion"
-		}
-		return true
-	})
-	if bad != "" || nret == 0 {
-		r.Bad(c, fi.Decl.Pos(), "NotFound: %s", bad)
-		return
-	}
-	r.OK(c, ta.Pos(), "returns the ok of `%s` (constant false otherwise); *%s is the type returned for status 404 only (see status rows)", src(r.P.Fset, ta), tab.NotFoundType)
-}
-
-// ---------------------------------------------------------------------------
-// symbolic strings
 
 // c20Hole is a position of a built string filled from a function input.
 type c20Hole struct {
@@ -1427,6 +337,10 @@ func (s c20Sym) render(roles map[int]string) string {
 				switch {
 				case h.param == -1:
 					b.WriteString("recv")
+				case h.param == -2:
+					b.WriteString("var " + h.pname)
+				case h.param == -3:
+					b.WriteString("status")
 				case roles[h.param] != "":
 					b.WriteString(roles[h.param])
 				default:
@@ -1503,792 +417,12 @@ func c20ParseFormat(f string) ([]c20FmtPart, string) {
 	return parts, ""
 }
 
-type c20Assign struct {
-	stmt  ast.Node
-	tok   token.Token // DEFINE, ASSIGN, ADD_ASSIGN..., VAR, RANGE, INC, AND (address taken)
-	rhs   ast.Expr    // corresponding RHS, or the multi-valued call
-	multi bool
-	idx   int
-}
-
-type c20Eval struct {
-	cx    *c20Ctx
-	info  *types.Info
-	fi    *FuncInfo
-	par   map[ast.Node]ast.Node
-	recv  types.Object
-	sep   string // option separator of the table
-	why   string
-	depth int
-}
-
-func c20NewEval(cx *c20Ctx, fi *FuncInfo, sep string) *c20Eval {
-	return &c20Eval{cx: cx, info: cx.info, fi: fi, par: parentsOf(cx.r.P, fi), recv: c20Sig(fi.Obj).Recv(), sep: sep}
-}
-
-func (ev *c20Eval) fail(format string, args ...interface{}) (c20Sym, bool) {
-	if ev.why == "" {
-		ev.why = fmt.Sprintf(format, args...)
-	}
-	return nil, false
-}
-
-func (ev *c20Eval) src(n ast.Node) string { return src(ev.cx.r.P.Fset, n) }
-
-// assigns lists every definition/assignment/address-taking of obj in the function, in source order.
-func (ev *c20Eval) assigns(obj types.Object) []c20Assign {
-	var out []c20Assign
-	ast.Inspect(ev.fi.Decl.Body, func(n ast.Node) bool {
-		switch x := n.(type) {
-		case *ast.AssignStmt:
-			for i, l := range x.Lhs {
-				if objOf(ev.info, l) != obj {
-					continue
-				}
-				a := c20Assign{stmt: x, tok: x.Tok, idx: i}
-				if len(x.Rhs) == len(x.Lhs) {
-					a.rhs = x.Rhs[i]
-				} else {
-					a.rhs, a.multi = x.Rhs[0], true
-				}
-				out = append(out, a)
-			}
-		case *ast.ValueSpec:
-			for i, nm := range x.Names {
-				if ev.info.Defs[nm] == obj {
-					a := c20Assign{stmt: x, tok: token.VAR, idx: i}
-					if i < len(x.Values) {
-						a.rhs = x.Values[i]
-					}
-					out = append(out, a)
-				}
-			}
-		case *ast.RangeStmt:
-			if (x.Key != nil && objOf(ev.info, x.Key) == obj) || (x.Value != nil && objOf(ev.info, x.Value) == obj) {
-				out = append(out, c20Assign{stmt: x, tok: token.RANGE})
-			}
-		case *ast.IncDecStmt:
-			if objOf(ev.info, x.X) == obj {
-				out = append(out, c20Assign{stmt: x, tok: token.INC})
-			}
-		case *ast.UnaryExpr:
-			if x.Op == token.AND && objOf(ev.info, x.X) == obj {
-				out = append(out, c20Assign{stmt: x, tok: token.AND})
-			}
-		}
-		return true
-	})
-	return out
-}
-
-func (ev *c20Eval) topLevel(s ast.Node) bool { return ev.par[s] == ast.Node(ev.fi.Decl.Body) }
-
-// leaf resolves an argument that is a function input: parameter, parameter.Field, receiver.Field,
-// possibly under a value-preserving int64 conversion.
-func (ev *c20Eval) leaf(e ast.Expr) *c20Hole {
-	e = ast.Unparen(e)
-	if call, ok := e.(*ast.CallExpr); ok && len(call.Args) == 1 {
-		if tv := ev.info.Types[call.Fun]; tv.IsType() {
-			if b, ok := tv.Type.Underlying().(*types.Basic); ok && b.Kind() == types.Int64 {
-				if ab, ok := ev.info.TypeOf(call.Args[0]).Underlying().(*types.Basic); ok && ab.Info()&types.IsInteger != 0 {
-					return ev.leaf(call.Args[0])
-				}
-			}
-		}
-		return nil
-	}
-	if id, ok := e.(*ast.Ident); ok {
-		o := objOf(ev.info, id)
-		if i := c20ParamIndex(ev.fi.Obj, o); i >= 0 {
-			return &c20Hole{param: i, pname: o.Name()}
-		}
-		return nil
-	}
-	if sel, ok := e.(*ast.SelectorExpr); ok {
-		f := fieldOf(ev.info, sel)
-		if f == nil {
-			return nil
-		}
-		o := objOf(ev.info, sel.X)
-		if o == nil {
-			return nil
-		}
-		if o == ev.recv {
-			return &c20Hole{param: -1, pname: o.Name(), field: f.Name()}
-		}
-		if i := c20ParamIndex(ev.fi.Obj, o); i >= 0 {
-			return &c20Hole{param: i, pname: o.Name(), field: f.Name()}
-		}
-	}
-	return nil
-}
-
-// str evaluates a string-typed expression symbolically.
-func (ev *c20Eval) str(e ast.Expr) (c20Sym, bool) {
-	ev.depth++
-	defer func() { ev.depth-- }()
-	if ev.depth > 20 {
-		return ev.fail("expression nesting too deep")
-	}
-	e = ast.Unparen(e)
-	if s, ok := constString(ev.info, e); ok {
-		return c20Lit(s), true
-	}
-	switch x := e.(type) {
-	case *ast.BinaryExpr:
-		if x.Op != token.ADD {
-			break
-		}
-		a, ok := ev.str(x.X)
-		if !ok {
-			return nil, false
-		}
-		b, ok := ev.str(x.Y)
-		if !ok {
-			return nil, false
-		}
-		return append(append(c20Sym{}, a...), b...), true
-	case *ast.Ident:
-		o := objOf(ev.info, x)
-		if o == nil {
-			break
-		}
-		if b, ok := o.Type().Underlying().(*types.Basic); !ok || b.Info()&types.IsString == 0 {
-			return ev.fail("`%s` is not a string", x.Name)
-		}
-		if h := ev.leaf(x); h != nil {
-			return c20Sym{{hole: h}}, true
-		}
-		if _, ok := o.(*types.Var); ok && o.Parent() != ev.cx.pk.Types.Scope() {
-			return ev.local(o, x)
-		}
-	case *ast.SelectorExpr:
-		if h := ev.leaf(x); h != nil {
-			if b, ok := ev.info.TypeOf(x).Underlying().(*types.Basic); ok && b.Info()&types.IsString != 0 {
-				return c20Sym{{hole: h}}, true
-			}
-		}
-	case *ast.CallExpr:
-		return ev.call(x)
-	}
-	return ev.fail("`%s` is not among the enumerated string-building idioms (constants, +, fmt.Sprintf, baseURL(), featureOptions, strings.Join of an option list, string(id list), url.QueryEscape, parameters)", ev.src(e))
-}
-
-func (ev *c20Eval) call(x *ast.CallExpr) (c20Sym, bool) {
-	fn := callee(ev.info, x)
-	switch {
-	case isPkgFunc(fn, "fmt", "Sprintf"):
-		return ev.sprintf(x)
-	case isMethod(fn, ev.cx.dsType, "baseURL") && len(x.Args) == 0:
-		if sel, ok := ast.Unparen(x.Fun).(*ast.SelectorExpr); ok && objOf(ev.info, sel.X) == ev.recv && ev.recv != nil {
-			return c20Sym{{hole: &c20Hole{base: true}}}, true
-		}
-		return ev.fail("`%s` takes the base URL of another datasource than the receiver", ev.src(x))
-	case isPkgFunc(fn, "net/url", "QueryEscape") && len(x.Args) == 1:
-		in, ok := ev.str(x.Args[0])
-		if !ok {
-			return nil, false
-		}
-		if len(in) != 1 || in[0].hole == nil || in[0].hole.fn != "" || in[0].hole.base {
-			return ev.fail("`%s` escapes something other than a plain parameter", ev.src(x))
-		}
-		h := *in[0].hole
-		h.fn = "escape"
-		return c20Sym{{hole: &h}}, true
-	case isPkgFunc(fn, "strings", "Join") && len(x.Args) == 2:
-		return ev.join(x)
-	case isMethod(fn, "time.Time", "Format") && len(x.Args) == 1:
-		layout, ok := constString(ev.info, x.Args[0])
-		if !ok {
-			return ev.fail("time layout `%s` is not a constant", ev.src(x.Args[0]))
-		}
-		sel := ast.Unparen(x.Fun).(*ast.SelectorExpr)
-		zone := "local"
-		inner := ast.Unparen(sel.X)
-		if c2, ok := inner.(*ast.CallExpr); ok && isMethod(callee(ev.info, c2), "time.Time", "UTC") {
-			zone = "utc"
-			inner = ast.Unparen(c2.Fun).(*ast.SelectorExpr).X
-		}
-		h := ev.leaf(inner)
-		if h == nil {
-			return ev.fail("`%s` formats something other than a parameter/receiver field", ev.src(x))
-		}
-		h.fn = zone + ":" + layout
-		return c20Sym{{hole: h}}, true
-	}
-	if tv := ev.info.Types[x.Fun]; tv.IsType() && len(x.Args) == 1 {
-		if b, ok := tv.Type.Underlying().(*types.Basic); ok && b.Info()&types.IsString != 0 {
-			if sl, ok := ev.info.TypeOf(x.Args[0]).Underlying().(*types.Slice); ok {
-				if eb, ok := sl.Elem().Underlying().(*types.Basic); ok && eb.Kind() == types.Uint8 {
-					return ev.csv(x.Args[0])
-				}
-			}
-			if ab, ok := ev.info.TypeOf(x.Args[0]).Underlying().(*types.Basic); ok && ab.Info()&types.IsString != 0 {
-				return ev.str(x.Args[0])
-			}
-		}
-	}
-	return ev.fail("call `%s` is not among the enumerated string-building idioms", ev.src(x))
-}
-
-func (ev *c20Eval) sprintf(x *ast.CallExpr) (c20Sym, bool) {
-	if len(x.Args) == 0 || x.Ellipsis.IsValid() {
-		return ev.fail("`%s`: variadic spread in Sprintf", ev.src(x))
-	}
-	f, ok := constString(ev.info, x.Args[0])
-	if !ok {
-		return ev.fail("format `%s` is not a constant", ev.src(x.Args[0]))
-	}
-	parts, perr := c20ParseFormat(f)
-	if perr != "" {
-		return ev.fail("format %q: %s", f, perr)
-	}
-	args := x.Args[1:]
-	var out c20Sym
-	k := 0
-	for _, p := range parts {
-		if p.verb == "" {
-			out = append(out, c20Tok{lit: p.lit})
-			continue
-		}
-		if k >= len(args) {
-			return ev.fail("format %q has more directives than arguments", f)
-		}
-		a := args[k]
-		k++
-		bt, _ := ev.info.TypeOf(a).Underlying().(*types.Basic)
-		switch {
-		case bt != nil && bt.Info()&types.IsString != 0:
-			if p.verb != "%s" && p.verb != "%v" {
-				return ev.fail("string argument `%s` is formatted with %s (not verbatim)", ev.src(a), p.verb)
-			}
-			s, ok := ev.str(a)
-			if !ok {
-				return nil, false
-			}
-			out = append(out, s...)
-		case bt != nil && bt.Info()&(types.IsInteger|types.IsFloat) != 0:
-			h := ev.leaf(a)
-			if h == nil {
-				return ev.fail("numeric argument `%s` is not a parameter, a field of a parameter or of the receiver", ev.src(a))
-			}
-			canon := "%d"
-			if bt.Info()&types.IsFloat != 0 {
-				canon = "%f"
-			}
-			if p.verb != canon {
-				h.verb = p.verb
-			}
-			out = append(out, c20Tok{hole: h})
-		default:
-			return ev.fail("argument `%s` of type %s is neither string nor number", ev.src(a), ev.info.TypeOf(a))
-		}
-	}
-	if k != len(args) {
-		return ev.fail("format %q has %d directive(s) for %d argument(s): fmt appends %%!(EXTRA ...) to the URL", f, k, len(args))
-	}
-	return out, true
-}
-
-// nonEmptyTest recognises `len(V) > 0`, `len(V) != 0`, `V != ""` and returns V.
-func (ev *c20Eval) nonEmptyTest(cond ast.Expr) ast.Expr {
-	be, ok := ast.Unparen(cond).(*ast.BinaryExpr)
-	if !ok {
-		return nil
-	}
-	if la := lenCallArg(ev.info, be.X); la != nil {
-		if v, ok := constInt(ev.info, be.Y); ok && v == 0 && (be.Op == token.GTR || be.Op == token.NEQ) {
-			return la
-		}
-		return nil
-	}
-	if s, ok := constString(ev.info, be.Y); ok && s == "" && be.Op == token.NEQ {
-		return be.X
-	}
-	return nil
-}
-
-// local evaluates a local string variable at a use.
-//
-//	v := E                                   (single assignment)
-//	v, err := featureOptions(opts); if err != nil { return ..., err }
-//	v := E; if <V non-empty> { v += lit + V }   (top-level statements of the function)
-func (ev *c20Eval) local(o types.Object, use *ast.Ident) (c20Sym, bool) {
-	as := ev.assigns(o)
-	if len(as) == 0 {
-		return ev.fail("no assignment to %s found", o.Name())
-	}
-	for _, a := range as {
-		if a.tok == token.AND || a.tok == token.RANGE || a.tok == token.INC {
-			return ev.fail("%s is a loop variable or has its address taken", o.Name())
-		}
-	}
-	first := as[0]
-	if first.tok != token.DEFINE || first.rhs == nil || first.stmt.Pos() > use.Pos() {
-		return ev.fail("%s is not introduced by `%s := ...` before its use", o.Name(), o.Name())
-	}
-	var sym c20Sym
-	if first.multi {
-		call, ok := ast.Unparen(first.rhs).(*ast.CallExpr)
-		fn := (*types.Func)(nil)
-		if ok {
-			fn = callee(ev.info, call)
-		}
-		if !ok || first.idx != 0 || !isPkgFunc(fn, ev.cx.pk.PkgPath, "featureOptions") || len(call.Args) != 1 {
-			return ev.fail("`%s` is not `%s, err := featureOptions(opts)`", ev.src(first.stmt), o.Name())
-		}
-		h := ev.leaf(call.Args[0])
-		if h == nil || h.field != "" || h.param < 0 {
-			return ev.fail("`%s` does not pass the method's option parameter", ev.src(call))
-		}
-		if !c20ErrReturned(ev.info, ev.par, call) {
-			return ev.fail("the error of `%s` is not returned: an invalid option would be silently dropped from the request", ev.src(call))
-		}
-		h.fn = "feature"
-		sym = c20Sym{{hole: h}}
-	} else {
-		s, ok := ev.str(first.rhs)
-		if !ok {
-			return nil, false
-		}
-		sym = s
-	}
-	for _, a := range as[1:] {
-		st, _ := a.stmt.(*ast.AssignStmt)
-		if a.tok != token.ADD_ASSIGN || st == nil || len(st.Lhs) != 1 {
-			return ev.fail("%s is reassigned by `%s`; accepted: one `:=` and guarded `+=` extensions", o.Name(), ev.src(a.stmt))
-		}
-		if st.Pos() > use.Pos() {
-			continue
-		}
-		blk, _ := ev.par[st].(*ast.BlockStmt)
-		ifs, _ := ev.par[blk].(*ast.IfStmt)
-		if blk == nil || ifs == nil || ifs.Body != blk || len(blk.List) != 1 || ifs.Else != nil || ifs.Init != nil || !ev.topLevel(ifs) || ifs.Pos() < first.stmt.Pos() {
-			return ev.fail("`%s` is not the only statement of a top-level `if <option string non-empty> { ... }`", ev.src(st))
-		}
-		v := ev.nonEmptyTest(ifs.Cond)
-		if v == nil {
-			return ev.fail("the guard `%s` of `%s` is not a non-emptiness test (`len(v) > 0`, `v != \"\"`)", ev.src(ifs.Cond), ev.src(st))
-		}
-		vs, ok := ev.str(v)
-		if !ok {
-			return nil, false
-		}
-		rs, ok := ev.str(a.rhs)
-		if !ok {
-			return nil, false
-		}
-		if len(vs) != 1 || vs[0].hole == nil {
-			return ev.fail("the guard `%s` does not test an option string", ev.src(ifs.Cond))
-		}
-		nh := 0
-		for _, t := range rs {
-			if t.opt != nil {
-				return ev.fail("nested optional part in `%s`", ev.src(st))
-			}
-			if t.hole != nil {
-				nh++
-				if *t.hole != *vs[0].hole {
-					return ev.fail("`%s` appends something other than the string tested by `%s`", ev.src(st), ev.src(ifs.Cond))
-				}
-			}
-		}
-		if nh != 1 {
-			return ev.fail("`%s` does not append the string tested by its guard exactly once", ev.src(st))
-		}
-		sym = append(append(c20Sym{}, sym...), c20Tok{opt: rs})
-	}
-	return sym, true
-}
-
-// optKind returns "feature"/"notes" for the option interfaces.
-func (ev *c20Eval) optKind(t types.Type) string {
-	nt, ok := t.(*types.Named)
-	if !ok || nt.Obj().Pkg() != ev.cx.pk.Types {
-		return ""
-	}
-	if _, ok := nt.Underlying().(*types.Interface); !ok {
-		return ""
-	}
-	n := nt.Obj().Name()
-	if !strings.HasSuffix(n, "Option") || n == "Option" {
-		return ""
-	}
-	return strings.ToLower(strings.TrimSuffix(n, "Option"))
-}
-
-// join evaluates strings.Join(L, sep) for a local list L built as
-//
-//	L := make([]string, 0, cap)          (or `var L []string`)
-//	L = append(L, e1, ...)               (top level, zero or more)
-//	for _, o := range opts { L, err = o.applyX(L); if err != nil { return ..., err } }
-func (ev *c20Eval) join(x *ast.CallExpr) (c20Sym, bool) {
-	sep, ok := constString(ev.info, x.Args[1])
-	if !ok {
-		return ev.fail("separator `%s` is not a constant", ev.src(x.Args[1]))
-	}
-	L := objOf(ev.info, x.Args[0])
-	if L == nil || c20ParamIndex(ev.fi.Obj, L) >= 0 {
-		return ev.fail("`%s` does not join a local list", ev.src(x))
-	}
-	as := ev.assigns(L)
-	if len(as) == 0 {
-		return ev.fail("no assignment to %s", L.Name())
-	}
-	first := as[0]
-	switch {
-	case first.tok == token.VAR && first.rhs == nil:
-	case first.tok == token.DEFINE && !first.multi:
-		mk, ok := ast.Unparen(first.rhs).(*ast.CallExpr)
-		if !ok || builtinName(ev.info, mk) != "make" || len(mk.Args) < 2 {
-			return ev.fail("`%s` is not `make([]string, 0, cap)`", ev.src(first.stmt))
-		}
-		if v, ok := constInt(ev.info, mk.Args[1]); !ok || v != 0 {
-			return ev.fail("`%s` starts with a non-empty list", ev.src(first.stmt))
-		}
-	default:
-		return ev.fail("`%s` is not an empty-list definition", ev.src(first.stmt))
-	}
-	var elems []c20Sym
-	var optHole *c20Hole
-	for _, a := range as[1:] {
-		st, _ := a.stmt.(*ast.AssignStmt)
-		if st == nil || a.tok != token.ASSIGN || st.Pos() > x.Pos() {
-			return ev.fail("list %s: unexpected `%s`", L.Name(), ev.src(a.stmt))
-		}
-		call, ok := ast.Unparen(a.rhs).(*ast.CallExpr)
-		if !ok {
-			return ev.fail("list %s: unexpected `%s`", L.Name(), ev.src(st))
-		}
-		if !a.multi && builtinName(ev.info, call) == "append" {
-			if optHole != nil || !ev.topLevel(st) || call.Ellipsis.IsValid() || len(call.Args) < 2 || objOf(ev.info, call.Args[0]) != L {
-				return ev.fail("`%s` is not a top-level `%s = append(%s, elem)` before the option loop", ev.src(st), L.Name(), L.Name())
-			}
-			for _, e := range call.Args[1:] {
-				s, ok := ev.str(e)
-				if !ok {
-					return nil, false
-				}
-				elems = append(elems, s)
-			}
-			continue
-		}
-		// option loop
-		rs, _ := ev.par[ev.par[st]].(*ast.RangeStmt)
-		if !a.multi || a.idx != 0 || optHole != nil || rs == nil || rs.Body != ev.par[st] || !ev.topLevel(rs) || rs.Value == nil {
-			return ev.fail("`%s` is not `%s, err = o.applyX(%s)` directly inside a top-level `for _, o := range opts`", ev.src(st), L.Name(), L.Name())
-		}
-		h := ev.leaf(rs.X)
-		if h == nil || h.field != "" || h.param < 0 {
-			return ev.fail("`%s` does not range over the method's option parameter", ev.src(rs.X))
-		}
-		sl, _ := ev.info.TypeOf(rs.X).Underlying().(*types.Slice)
-		kind := ""
-		if sl != nil {
-			kind = ev.optKind(sl.Elem())
-		}
-		fn := callee(ev.info, call)
-		sel, _ := ast.Unparen(call.Fun).(*ast.SelectorExpr)
-		if kind == "" || fn == nil || sel == nil || objOf(ev.info, sel.X) != objOf(ev.info, rs.Value) || len(call.Args) != 1 || objOf(ev.info, call.Args[0]) != L {
-			return ev.fail("`%s` does not apply the loop's option to %s", ev.src(st), L.Name())
-		}
-		// the method must be the single method of the option interface
-		it, _ := sl.Elem().Underlying().(*types.Interface)
-		if it == nil || it.NumMethods() != 1 || it.Method(0) != fn {
-			return ev.fail("`%s` is not the option interface's single apply method", ev.src(call.Fun))
-		}
-		if !c20ErrReturned(ev.info, ev.par, call) {
-			return ev.fail("the error of `%s` is not returned: an invalid option would be dropped silently or the request sent anyway", ev.src(call))
-		}
-		h.fn = kind
-		if sep != ev.sep {
-			h.fn = kind + "<" + sep + ">"
-		}
-		optHole = h
-	}
-	var out c20Sym
-	for i, e := range elems {
-		if i > 0 {
-			out = append(out, c20Tok{lit: sep})
-		}
-		out = append(out, e...)
-	}
-	if optHole != nil {
-		if len(elems) == 0 {
-			out = append(out, c20Tok{hole: optHole})
-		} else {
-			out = append(out, c20Tok{opt: c20Sym{{lit: sep}, {hole: optHole}}})
-		}
-	}
-	return out, true
-}
-
-// csv evaluates string(D) for a local byte slice built as
-//
-//	D := make([]byte, 0, cap)
-//	for i, id := range ids { if i != 0 { D = append(D, byte(',')) }; D = strconv.AppendInt(D, int64(id), 10) }
-func (ev *c20Eval) csv(e ast.Expr) (c20Sym, bool) {
-	D := objOf(ev.info, e)
-	if D == nil || c20ParamIndex(ev.fi.Obj, D) >= 0 {
-		return ev.fail("`string(%s)` does not convert a local byte slice", ev.src(e))
-	}
-	as := ev.assigns(D)
-	if len(as) != 3 {
-		return ev.fail("byte slice %s: expected make + separator append + AppendInt, found %d assignment(s)", D.Name(), len(as))
-	}
-	mk, ok := ast.Unparen(as[0].rhs).(*ast.CallExpr)
-	if as[0].tok != token.DEFINE || !ok || builtinName(ev.info, mk) != "make" || len(mk.Args) < 2 {
-		return ev.fail("`%s` is not `make([]byte, 0, cap)`", ev.src(as[0].stmt))
-	}
-	if v, ok := constInt(ev.info, mk.Args[1]); !ok || v != 0 {
-		return ev.fail("`%s` starts with a non-empty buffer", ev.src(as[0].stmt))
-	}
-	sepSt, _ := as[1].stmt.(*ast.AssignStmt)
-	numSt, _ := as[2].stmt.(*ast.AssignStmt)
-	if sepSt == nil || numSt == nil || as[1].tok != token.ASSIGN || as[2].tok != token.ASSIGN {
-		return ev.fail("byte slice %s: unrecognised assignments", D.Name())
-	}
-	// loop
-	rs, _ := ev.par[ev.par[numSt]].(*ast.RangeStmt)
-	if rs == nil || !ev.topLevel(rs) || rs.Key == nil || rs.Value == nil || len(rs.Body.List) != 2 || rs.Body.List[1] != ast.Stmt(numSt) || rs.Pos() < as[0].stmt.Pos() || rs.End() > e.Pos() {
-		return ev.fail("`%s` is not the second of two statements of a top-level `for i, id := range ids` between the make and the use", ev.src(numSt))
-	}
-	h := ev.leaf(rs.X)
-	if h == nil || h.field != "" || h.param < 0 {
-		return ev.fail("`%s` does not range over a method parameter", ev.src(rs.X))
-	}
-	iObj, idObj := objOf(ev.info, rs.Key), objOf(ev.info, rs.Value)
-	// D = strconv.AppendInt(D, int64(id), 10)
-	ai, ok := ast.Unparen(as[2].rhs).(*ast.CallExpr)
-	if !ok || !isPkgFunc(callee(ev.info, ai), "strconv", "AppendInt") || len(ai.Args) != 3 || objOf(ev.info, ai.Args[0]) != D {
-		return ev.fail("`%s` is not `%s = strconv.AppendInt(%s, int64(id), 10)`", ev.src(numSt), D.Name(), D.Name())
-	}
-	if b, ok := constInt(ev.info, ai.Args[2]); !ok || b != 10 {
-		return ev.fail("`%s` does not print base 10", ev.src(ai))
-	}
-	conv, ok := ast.Unparen(ai.Args[1]).(*ast.CallExpr)
-	if !ok || len(conv.Args) != 1 || !ev.info.Types[conv.Fun].IsType() || objOf(ev.info, conv.Args[0]) != idObj {
-		return ev.fail("`%s` does not print the loop's id", ev.src(ai))
-	}
-	// if i != 0 { D = append(D, sep) }
-	ifs, _ := rs.Body.List[0].(*ast.IfStmt)
-	if ifs == nil || ifs.Init != nil || ifs.Else != nil || len(ifs.Body.List) != 1 || ifs.Body.List[0] != ast.Stmt(sepSt) {
-		return ev.fail("the first loop statement is not `if i != 0 { %s = append(%s, ',') }`", D.Name(), D.Name())
-	}
-	be, ok := ast.Unparen(ifs.Cond).(*ast.BinaryExpr)
-	if !ok || objOf(ev.info, be.X) != iObj || (be.Op != token.NEQ && be.Op != token.GTR) {
-		return ev.fail("separator guard `%s` is not `i != 0`", ev.src(ifs.Cond))
-	}
-	if z, ok := constInt(ev.info, be.Y); !ok || z != 0 {
-		return ev.fail("separator guard `%s` is not `i != 0`", ev.src(ifs.Cond))
-	}
-	ap, ok := ast.Unparen(as[1].rhs).(*ast.CallExpr)
-	if !ok || builtinName(ev.info, ap) != "append" || len(ap.Args) != 2 || ap.Ellipsis.IsValid() || objOf(ev.info, ap.Args[0]) != D {
-		return ev.fail("`%s` is not `%s = append(%s, ',')`", ev.src(sepSt), D.Name(), D.Name())
-	}
-	sv, ok := constInt(ev.info, ap.Args[1])
-	if !ok {
-		return ev.fail("separator `%s` is not a constant", ev.src(ap.Args[1]))
-	}
-	h.fn = "csv"
-	if sv != ',' {
-		h.fn = fmt.Sprintf("csv<%c>", rune(sv))
-	}
-	return c20Sym{{hole: h}}, true
-}
-
-// ---------------------------------------------------------------------------
-// request sites
-
-// c20Site is the single request call of a request function.
-type c20Site struct {
-	fi     *FuncInfo
-	call   *ast.CallExpr
-	callee *FuncInfo // getFromAPI or a helper
-}
-
-func (cx *c20Ctx) site(fi *FuncInfo) (*c20Site, string) {
-	calls, lit := cx.reqCalls(fi)
-	if lit {
-		return nil, "request call inside a function literal"
-	}
-	if len(calls) != 1 {
-		return nil, fmt.Sprintf("%d request call sites (exactly one expected)", len(calls))
-	}
-	fn := callee(cx.info, calls[0])
-	tgt := cx.byObj[fn]
-	if tgt == nil {
-		return nil, "callee of the request call has no body in the package"
-	}
-	// the call must be made on the method's own receiver with its own context
-	sig := c20Sig(fi.Obj)
-	sel, ok := ast.Unparen(calls[0].Fun).(*ast.SelectorExpr)
-	if !ok || sig.Recv() == nil || objOf(cx.info, sel.X) != sig.Recv() {
-		return nil, fmt.Sprintf("`%s` is not called on the method's receiver: another datasource's client/limiter/base URL would be used", src(cx.r.P.Fset, calls[0].Fun))
-	}
-	if len(calls[0].Args) == 0 || objOf(cx.info, calls[0].Args[0]) != sig.Params().At(0) {
-		return nil, "the request is not made with the call's context parameter"
-	}
-	return &c20Site{fi: fi, call: calls[0], callee: tgt}, ""
-}
-
-// urlParam returns, for getFromAPI or a helper, the index of the parameter that becomes the request URL.
-func (cx *c20Ctx) urlParam(fi *FuncInfo, depth int) (int, string) {
-	if fi.Obj == cx.getFn.Obj {
-		return 1, ""
-	}
-	if depth > 4 {
-		return -1, "helper chain too deep"
-	}
-	st, why := cx.site(fi)
-	if st == nil {
-		return -1, "helper " + fi.Name() + ": " + why
-	}
-	k, why := cx.urlParam(st.callee, depth+1)
-	if k < 0 {
-		return -1, why
-	}
-	i := c20ParamIndex(fi.Obj, objOf(cx.info, st.call.Args[k]))
-	if i < 0 {
-		return -1, "helper " + fi.Name() + " does not pass one of its parameters as the URL"
-	}
-	// the parameter must not be reassigned in the helper
-	if countAssignsTo(cx.info, fi.Decl.Body, c20Sig(fi.Obj).Params().At(i), fi.Decl.Body.Pos(), fi.Decl.Body.End()) > 0 {
-		return -1, "helper " + fi.Name() + " reassigns its URL parameter"
-	}
-	return i, ""
-}
-
-// resultFn follows tail delegation (`return ds.helper(ctx, url)`) to the function that owns the decode target.
-func (cx *c20Ctx) resultFn(fi *FuncInfo, depth int) (*FuncInfo, *c20Site, string) {
-	st, why := cx.site(fi)
-	if st == nil {
-		return nil, nil, why
-	}
-	if st.callee.Obj == cx.getFn.Obj {
-		return fi, st, ""
-	}
-	if depth > 4 {
-		return nil, nil, "helper chain too deep"
-	}
-	par := parentsOf(cx.r.P, fi)
-	if ret, ok := par[st.call].(*ast.ReturnStmt); !ok || len(ret.Results) != 1 {
-		return nil, nil, fmt.Sprintf("the result of helper call `%s` is not returned directly", src(cx.r.P.Fset, st.call))
-	}
-	return cx.resultFn(st.callee, depth+1)
-}
-
-// ---------------------------------------------------------------------------
-// H4 path table
-
 func c20Roles(ep *c20Endpoint) map[int]string {
 	m := map[int]string{}
 	for role, i := range ep.Params {
 		m[i] = role
 	}
 	return m
-}
-
-func c20H4(r *core.R) {
-	cx := c20NewCtx(r)
-	if cx == nil {
-		return
-	}
-	tab := c20LoadTable(r)
-	if tab == nil {
-		return
-	}
-	seen := map[string]bool{}
-	for _, fi := range cx.endpoints() {
-		name := fi.Obj.Name()
-		c := "path@" + fi.Name()
-		ep := tab.endpoint(name)
-		if ep == nil {
-			r.Bad(c, fi.Decl.Pos(), "exported request method %s has no entry in tables/api06.json: its path cannot be compared with the API v0.6 documentation (add the documented path to the table)", fi.Name())
-			continue
-		}
-		seen[name] = true
-		st, why := cx.site(fi)
-		if st == nil {
-			r.Unknown(c, fi.Decl.Pos(), "request site not identified: %s", why)
-			continue
-		}
-		k, why := cx.urlParam(st.callee, 0)
-		if k < 0 {
-			r.Unknown(c, st.call.Pos(), "URL argument not identified: %s", why)
-			continue
-		}
-		sig := c20Sig(fi.Obj)
-		// roles must be bound to existing parameters
-		okRoles := true
-		for role, i := range ep.Params {
-			if i <= 0 || i >= sig.Params().Len() {
-				r.Bad(c, fi.Decl.Pos(), "the table binds role %q to parameter #%d, which %s does not have (signature changed)", role, i, fi.Name())
-				okRoles = false
-			}
-		}
-		if !okRoles {
-			continue
-		}
-		ev := c20NewEval(cx, fi, tab.OptionSeparator)
-		sym, ok := ev.str(st.call.Args[k])
-		if !ok {
-			r.Unknown(c, st.call.Args[k].Pos(), "URL expression `%s` could not be evaluated: %s", src(r.P.Fset, st.call.Args[k]), ev.why)
-			continue
-		}
-		got := sym.render(c20Roles(ep))
-		if got != ep.URL {
-			r.Bad(c, st.call.Args[k].Pos(), "%s requests `%s`; API v0.6 (%s) requires `%s` (holes are the method's parameters by position: %s)", fi.Name(), got, ep.Doc, ep.URL, c20ParamList(sig, ep))
-			continue
-		}
-		// every non-context parameter must reach the URL
-		used := map[int]bool{}
-		for _, h := range sym.holes() {
-			used[h.param] = true
-		}
-		missing := ""
-		for i := 1; i < sig.Params().Len(); i++ {
-			if !used[i] {
-				missing = sig.Params().At(i).Name()
-			}
-		}
-		if missing != "" {
-			r.Bad(c, st.call.Args[k].Pos(), "parameter %s of %s does not appear in the request URL `%s`", missing, fi.Name(), got)
-			continue
-		}
-		r.OK(c, st.call.Args[k].Pos(), "URL evaluates to `%s` with %s — equal to the table entry (%s)", got, c20ParamList(sig, ep), ep.Doc)
-	}
-	for _, ep := range tab.Endpoints {
-		if !seen[ep.Method] {
-			r.Anchor("(*Datasource)." + ep.Method + " (endpoint of tables/api06.json)")
-		}
-	}
-	c20CheckBaseURL(cx, tab)
-
-	// the URL parameter is the URL requested
-	if gt := c20NewGet(cx); gt != nil {
-		c := "url@" + gt.fi.Name()
-		switch {
-		case gt.newReq == nil:
-			r.Unknown(c, gt.do.Pos(), "exactly one http.NewRequest/NewRequestWithContext call expected in getFromAPI")
-		default:
-			ui := 1
-			if callee(cx.info, gt.newReq).Name() == "NewRequestWithContext" {
-				ui = 2
-			}
-			n := countAssignsTo(cx.info, gt.fi.Decl.Body, gt.urlP, gt.fi.Decl.Body.Pos(), gt.newReq.Pos())
-			switch {
-			case objOf(cx.info, gt.newReq.Args[ui]) != gt.urlP:
-				r.Bad(c, gt.newReq.Pos(), "`%s` does not request getFromAPI's URL parameter %s", src(r.P.Fset, gt.newReq), gt.urlP.Name())
-			case n > 0:
-				r.Bad(c, gt.newReq.Pos(), "the URL parameter %s is reassigned before `%s`", gt.urlP.Name(), src(r.P.Fset, gt.newReq))
-			case !c20IsNil(cx.info, gt.newReq.Args[ui+1]):
-				r.Bad(c, gt.newReq.Pos(), "`%s` sends a request body", src(r.P.Fset, gt.newReq))
-			default:
-				r.OK(c, gt.newReq.Pos(), "`%s` requests exactly the URL parameter, unmodified, without body", src(r.P.Fset, gt.newReq))
-			}
-		}
-	}
 }
 
 func c20ParamList(sig *types.Signature, ep *c20Endpoint) string {
@@ -2302,611 +436,4 @@ func c20ParamList(sig *types.Signature, ep *c20Endpoint) string {
 		s = append(s, fmt.Sprintf("%s=#%d %s", role, i, sig.Params().At(i).Name()))
 	}
 	return strings.Join(s, ", ")
-}
-
-// baseURL(): `if recv.BaseURL != "" { return recv.BaseURL }; return BaseURL`
-func c20CheckBaseURL(cx *c20Ctx, tab *c20Table) {
-	r := cx.r
-	info := cx.info
-	fi := findFunc(cx.pk, "(*Datasource).baseURL")
-	if fi == nil {
-		r.Anchor("(*Datasource).baseURL")
-		return
-	}
-	c := "base@" + fi.Name()
-	recv := c20Sig(fi.Obj).Recv()
-	isField := func(e ast.Expr) bool {
-		f := fieldOf(info, e)
-		return f != nil && f.Name() == "BaseURL" && objOf(info, ast.Unparen(e).(*ast.SelectorExpr).X) == recv
-	}
-	par := parentsOf(r.P, fi)
-	nField, nConst := 0, 0
-	bad := ""
-	ast.Inspect(fi.Decl.Body, func(n ast.Node) bool {
-		ret, ok := n.(*ast.ReturnStmt)
-		if !ok || len(ret.Results) != 1 {
-			return true
-		}
-		res := ret.Results[0]
-		if s, ok := constString(info, res); ok {
-			nConst++
-			if !(strings.HasPrefix(s, "http://") || strings.HasPrefix(s, "https://")) || !strings.HasSuffix(s, tab.BasePathSuffix) {
-				bad = fmt.Sprintf("default base URL %q is not an absolute URL ending in %s", s, tab.BasePathSuffix)
-			}
-			// the default must only be used when nothing is configured: not inside the non-empty branch
-			return true
-		}
-		if isField(res) {
-			nField++
-			ifs, _ := enclosing(par, ret, func(x ast.Node) bool { _, k := x.(*ast.IfStmt); return k }).(*ast.IfStmt)
-			okGuard := false
-			if ifs != nil && ret.Pos() >= ifs.Body.Pos() && ret.End() <= ifs.Body.End() {
-				if be, k := ast.Unparen(ifs.Cond).(*ast.BinaryExpr); k && be.Op == token.NEQ && isField(be.X) {
-					if s, k := constString(info, be.Y); k && s == "" {
-						okGuard = true
-					}
-				}
-			}
-			if !okGuard {
-				bad = fmt.Sprintf("`%s` is not under `if %s.BaseURL != \"\"`: a configured base URL is ignored or an empty one is used", src(r.P.Fset, ret), recv.Name())
-			}
-			return true
-		}
-		bad = fmt.Sprintf("`%s` returns neither the configured BaseURL nor the default constant", src(r.P.Fset, ret))
-		return true
-	})
-	switch {
-	case bad != "":
-		r.Bad(c, fi.Decl.Pos(), "%s", bad)
-	case nField != 1 || nConst != 1 || len(fi.Decl.Body.List) != 2:
-		r.Unknown(c, fi.Decl.Pos(), "baseURL is not the enumerated idiom `if ds.BaseURL != \"\" { return ds.BaseURL }; return BaseURL`")
-	default:
-		r.OK(c, fi.Decl.Pos(), "returns the configured BaseURL when non-empty, otherwise a constant absolute URL ending in %s", tab.BasePathSuffix)
-	}
-}
-
-// ---------------------------------------------------------------------------
-// H5 results and single-element guards
-
-func c20H5(r *core.R) {
-	cx := c20NewCtx(r)
-	if cx == nil {
-		return
-	}
-	tab := c20LoadTable(r)
-	if tab == nil {
-		return
-	}
-	info := cx.info
-	osmPath := core.ModulePath
-	doneSingle := map[*FuncInfo]bool{}
-	for _, fi := range cx.endpoints() {
-		ep := tab.endpoint(fi.Obj.Name())
-		if ep == nil {
-			continue // reported by H4
-		}
-		c := "result@" + fi.Name()
-		rf, st, why := cx.resultFn(fi, 0)
-		if rf == nil {
-			r.Unknown(c, fi.Decl.Pos(), "function owning the decode target not identified: %s", why)
-			continue
-		}
-		// item: &o with o := &osm.T{}
-		var item types.Object
-		if ue, ok := ast.Unparen(st.call.Args[2]).(*ast.UnaryExpr); ok && ue.Op == token.AND {
-			item = objOf(info, ue.X)
-		} else {
-			item = objOf(info, st.call.Args[2])
-		}
-		if item == nil || c20ParamIndex(rf.Obj, item) >= 0 {
-			r.Unknown(c, st.call.Pos(), "decode target `%s` is not (the address of) a local variable", src(r.P.Fset, st.call.Args[2]))
-			continue
-		}
-		if namedPath(item.Type()) != osmPath+"."+ep.Document {
-			r.Bad(c, st.call.Pos(), "the response is decoded into %s; the API returns an %s document for this call", item.Type(), ep.Document)
-			continue
-		}
-		ev := c20NewEval(cx, rf, tab.OptionSeparator)
-		defs := ev.assigns(item)
-		fresh := false
-		nAddr := 0
-		for _, d := range defs {
-			if d.tok == token.AND {
-				nAddr++
-			}
-		}
-		if len(defs)-nAddr == 1 && defs[0].tok == token.DEFINE && !defs[0].multi {
-			if ue, ok := ast.Unparen(defs[0].rhs).(*ast.UnaryExpr); ok && ue.Op == token.AND {
-				if cl, ok := ast.Unparen(ue.X).(*ast.CompositeLit); ok && len(cl.Elts) == 0 {
-					fresh = true
-				}
-			}
-		}
-		if !fresh || nAddr != 1 {
-			r.Bad(c, st.call.Pos(), "decode target %s is not a freshly allocated empty document used only for this request (`%s := &osm.%s{}` and one `&%s`): elements not sent by the server could be returned", item.Name(), item.Name(), ep.Document, item.Name())
-			continue
-		}
-		// success returns of rf
-		g := newCFG(info, rf.Decl.Body)
-		dom := dominators(g)
-		nSucc := 0
-		bad := false
-		var singles []*ast.IndexExpr
-		ast.Inspect(rf.Decl.Body, func(n ast.Node) bool {
-			if _, ok := n.(*ast.FuncLit); ok {
-				return false
-			}
-			ret, ok := n.(*ast.ReturnStmt)
-			if !ok || len(ret.Results) != 2 || !c20IsNil(info, ret.Results[1]) || bad {
-				return true
-			}
-			nSucc++
-			res := ast.Unparen(ret.Results[0])
-			// the request must dominate the return
-			if !posDominates(g, dom, st.call.Pos(), ret.Pos()) {
-				r.Bad(c, ret.Pos(), "`%s` is not dominated by the request `%s`", src(r.P.Fset, ret), src(r.P.Fset, st.call))
-				bad = true
-				return true
-			}
-			sel := res
-			var ix *ast.IndexExpr
-			if ep.Single {
-				x, ok := res.(*ast.IndexExpr)
-				if !ok {
-					r.Bad(c, ret.Pos(), "`%s`: a single-element call must return element [0] of %s.%s", src(r.P.Fset, ret), item.Name(), ep.Result)
-					bad = true
-					return true
-				}
-				ix = x
-				sel = ast.Unparen(x.X)
-			}
-			if ep.Result == "*" {
-				if objOf(info, sel) != item {
-					r.Bad(c, ret.Pos(), "`%s` does not return the decoded document %s itself: the call must return exactly what the server sent", src(r.P.Fset, ret), item.Name())
-					bad = true
-				}
-				return true
-			}
-			f := fieldOf(info, sel)
-			if f == nil || objOf(info, sel.(*ast.SelectorExpr).X) != item {
-				r.Bad(c, ret.Pos(), "`%s` does not return a field of the decoded document %s", src(r.P.Fset, ret), item.Name())
-				bad = true
-				return true
-			}
-			if f.Name() != ep.Result {
-				r.Bad(c, ret.Pos(), "`%s` returns %s.%s; %s answers with %s elements (%s)", src(r.P.Fset, ret), item.Name(), f.Name(), ep.Doc, ep.Result, item.Name()+"."+ep.Result)
-				bad = true
-				return true
-			}
-			if ix != nil {
-				singles = append(singles, ix)
-			}
-			return true
-		})
-		if bad {
-			continue
-		}
-		if nSucc == 0 {
-			r.Unknown(c, rf.Decl.Pos(), "no `return value, nil` in %s", rf.Name())
-			continue
-		}
-		what := item.Name() + "." + ep.Result
-		if ep.Result == "*" {
-			what = "the document " + item.Name()
-		} else if ep.Single {
-			what += "[0]"
-		}
-		via := ""
-		if rf != fi {
-			via = " (through " + rf.Name() + ")"
-		}
-		r.OK(c, st.call.Pos(), "%d success return(s)%s return %s of the fresh *osm.%s that is the decode target of the request", nSucc, via, what, ep.Document)
-
-		if !ep.Single || doneSingle[rf] {
-			continue
-		}
-		doneSingle[rf] = true
-		for _, ix := range singles {
-			cs := "single@" + rf.Name()
-			if v, ok := constInt(info, ix.Index); !ok || v != 0 {
-				r.Bad(cs, ix.Pos(), "`%s` does not return element 0", src(r.P.Fset, ix))
-				continue
-			}
-			ok, why, proof := c20SingleGuard(cx, ev, g, dom, ix)
-			if ok {
-				r.OK(cs, ix.Pos(), "`%s` is dominated by `%s`; its reject edge returns an error and does not reach the use", src(r.P.Fset, ix), proof)
-			} else {
-				r.Bad(cs, ix.Pos(), "`%s`: %s — a response with 0 elements panics and one with several silently returns the first instead of being rejected", src(r.P.Fset, ix), why)
-			}
-		}
-	}
-}
-
-// c20SingleGuard: use = X[0]; a dominating two-way branch `len(X) != 1` (or `l != 1` with `l := len(X)`,
-// or the `== 1` form with edges swapped) whose reject edge returns errors only and cannot reach the use.
-func c20SingleGuard(cx *c20Ctx, ev *c20Eval, g *cfg.CFG, dom map[*cfg.Block]map[*cfg.Block]bool, use *ast.IndexExpr) (bool, string, string) {
-	info := cx.info
-	fset := cx.r.P.Fset
-	ub, _ := blockOf(g, use.Pos())
-	if ub == nil {
-		return false, "use not located in the control-flow graph", ""
-	}
-	why := "no dominating test `len(" + src(fset, use.X) + ") != 1`"
-	for _, b := range g.Blocks {
-		if !b.Live || len(b.Succs) != 2 || b == ub || !dom[ub][b] {
-			continue
-		}
-		be, ok := ast.Unparen(lastExpr(b)).(*ast.BinaryExpr)
-		if !ok || (be.Op != token.NEQ && be.Op != token.EQL) {
-			if ok && c20MentionsLenOf(info, ev, be, use.X) {
-				why = "the length test `" + src(fset, be) + "` is not of the form `len(" + src(fset, use.X) + ") != 1`"
-			}
-			continue
-		}
-		lenSide, constSide := be.X, be.Y
-		if _, isC := constInt(info, be.X); isC {
-			lenSide, constSide = be.Y, be.X
-		}
-		arg := c20LenArg(info, ev, lenSide)
-		if arg == nil {
-			continue
-		}
-		if !sameExpr(info, arg, use.X) {
-			why = "the length test `" + src(fset, be) + "` (length of `" + src(fset, arg) + "`) is on a different field than the element returned"
-			continue
-		}
-		if v, ok := constInt(info, constSide); !ok || v != 1 {
-			why = "the length test `" + src(fset, be) + "` does not compare the length with 1"
-			continue
-		}
-		reject := b.Succs[0]
-		if be.Op == token.EQL {
-			reject = b.Succs[1]
-		}
-		reg := reachableFrom([]*cfg.Block{reject}, nil)
-		if reg[ub] {
-			why = "the use is reachable from the reject edge of `" + src(fset, be) + "`"
-			continue
-		}
-		okErr := true
-		for rb := range reg {
-			for _, n := range rb.Nodes {
-				if ret, ok := n.(*ast.ReturnStmt); ok && (len(ret.Results) == 0 || c20IsNil(info, ret.Results[len(ret.Results)-1])) {
-					okErr = false
-				}
-			}
-		}
-		if !okErr {
-			why = "the reject edge of `" + src(fset, be) + "` returns without an error"
-			continue
-		}
-		if n := countAssignsTo(info, ev.fi.Decl.Body, rootObj(info, use.X), be.Pos(), use.Pos()); n > 0 {
-			why = "the document is reassigned between the guard and the use"
-			continue
-		}
-		return true, "", src(fset, be) + " with length of " + src(fset, arg)
-	}
-	return false, why, ""
-}
-
-// c20LenArg: `len(X)` → X; identifier whose only definition is `l := len(X)` → X.
-func c20LenArg(info *types.Info, ev *c20Eval, e ast.Expr) ast.Expr {
-	if a := lenCallArg(info, e); a != nil {
-		return a
-	}
-	if o := objOf(info, e); o != nil {
-		as := ev.assigns(o)
-		if len(as) == 1 && as[0].tok == token.DEFINE && !as[0].multi {
-			return lenCallArg(info, as[0].rhs)
-		}
-	}
-	return nil
-}
-
-func c20MentionsLenOf(info *types.Info, ev *c20Eval, be *ast.BinaryExpr, x ast.Expr) bool {
-	for _, s := range []ast.Expr{be.X, be.Y} {
-		if a := c20LenArg(info, ev, s); a != nil && sameExpr(info, a, x) {
-			return true
-		}
-	}
-	return false
-}
-
-// ---------------------------------------------------------------------------
-// H6 options
-
-// c20RangeReject parses `f < lo || hi < f` style rejections on receiver field f and returns the accepted interval.
-func c20RangeReject(ev *c20Eval, cond ast.Expr, field string) (lo, hi int64, okLo, okHi bool, bad string) {
-	info := ev.info
-	var walk func(e ast.Expr)
-	walk = func(e ast.Expr) {
-		e = ast.Unparen(e)
-		be, ok := e.(*ast.BinaryExpr)
-		if !ok {
-			bad = "`" + ev.src(e) + "` is not a comparison"
-			return
-		}
-		if be.Op == token.LOR {
-			walk(be.X)
-			walk(be.Y)
-			return
-		}
-		op := be.Op
-		var c int64
-		if h := ev.leaf(be.X); h != nil && h.param == -1 && h.field == field {
-			v, ok := constInt(info, be.Y)
-			if !ok {
-				bad = "`" + ev.src(be) + "` does not compare with a constant"
-				return
-			}
-			c = v
-		} else if h := ev.leaf(be.Y); h != nil && h.param == -1 && h.field == field {
-			v, ok := constInt(info, be.X)
-			if !ok {
-				bad = "`" + ev.src(be) + "` does not compare with a constant"
-				return
-			}
-			c = v
-			switch op {
-			case token.LSS:
-				op = token.GTR
-			case token.LEQ:
-				op = token.GEQ
-			case token.GTR:
-				op = token.LSS
-			case token.GEQ:
-				op = token.LEQ
-			}
-		} else {
-			bad = "`" + ev.src(be) + "` does not test the option's value"
-			return
-		}
-		// rejected when: f op c
-		switch op {
-		case token.LSS: // f < c rejected → accepted f >= c
-			lo, okLo = c, true
-		case token.LEQ:
-			lo, okLo = c+1, true
-		case token.GTR: // f > c rejected → accepted f <= c
-			hi, okHi = c, true
-		case token.GEQ:
-			hi, okHi = c-1, true
-		default:
-			bad = "`" + ev.src(be) + "` is not an ordering comparison"
-		}
-	}
-	walk(cond)
-	return
-}
-
-func c20H6(r *core.R) {
-	cx := c20NewCtx(r)
-	if cx == nil {
-		return
-	}
-	tab := c20LoadTable(r)
-	if tab == nil {
-		return
-	}
-	info := cx.info
-	for _, op := range tab.Options {
-		cc := "ctor@" + op.Ctor
-		ca := "apply@" + op.Ctor
-		ctor := findFunc(cx.pk, op.Ctor)
-		if ctor == nil || c20Sig(ctor.Obj).Recv() != nil || c20Sig(ctor.Obj).Params().Len() != 1 || c20Sig(ctor.Obj).Results().Len() != 1 {
-			r.Anchor("osmapi." + op.Ctor + "(value) option constructor")
-			continue
-		}
-		sig := c20Sig(ctor.Obj)
-		evc := c20NewEval(cx, ctor, tab.OptionSeparator)
-		if k := evc.optKind(sig.Results().At(0).Type()); k != op.Kind {
-			r.Bad(cc, ctor.Decl.Pos(), "%s returns a %s; the table lists it as a %s option", op.Ctor, sig.Results().At(0).Type(), op.Kind)
-			continue
-		}
-		iface := sig.Results().At(0).Type().Underlying().(*types.Interface)
-		if iface.NumMethods() != 1 {
-			r.Anchor("single apply method of " + sig.Results().At(0).Type().String())
-			continue
-		}
-		// return &T{param}
-		var optT *types.Named
-		field := ""
-		if len(ctor.Decl.Body.List) == 1 {
-			if ret, ok := ctor.Decl.Body.List[0].(*ast.ReturnStmt); ok && len(ret.Results) == 1 {
-				if ue, ok := ast.Unparen(ret.Results[0]).(*ast.UnaryExpr); ok && ue.Op == token.AND {
-					if cl, ok := ast.Unparen(ue.X).(*ast.CompositeLit); ok && len(cl.Elts) == 1 {
-						nt, _ := info.TypeOf(cl).(*types.Named)
-						st, _ := info.TypeOf(cl).Underlying().(*types.Struct)
-						if nt != nil && st != nil {
-							val := cl.Elts[0]
-							fname := ""
-							if kv, ok := val.(*ast.KeyValueExpr); ok {
-								if id, ok := kv.Key.(*ast.Ident); ok {
-									fname = id.Name
-								}
-								val = kv.Value
-							} else if st.NumFields() >= 1 {
-								fname = st.Field(0).Name()
-							}
-							if objOf(info, val) == sig.Params().At(0) && fname != "" {
-								optT, field = nt, fname
-							}
-						}
-					}
-				}
-			}
-		}
-		if optT == nil {
-			r.Unknown(cc, ctor.Decl.Pos(), "%s is not the enumerated idiom `return &optionType{param}`", op.Ctor)
-			continue
-		}
-		r.OK(cc, ctor.Decl.Pos(), "%s(%s) returns &%s{%s: %s}", op.Ctor, sig.Params().At(0).Name(), optT.Obj().Name(), field, sig.Params().At(0).Name())
-
-		// apply method of the option type
-		mname := iface.Method(0).Name()
-		ap := findFunc(cx.pk, "(*"+optT.Obj().Name()+")."+mname)
-		if ap == nil {
-			r.Anchor("(*" + optT.Obj().Name() + ")." + mname)
-			continue
-		}
-		asig := c20Sig(ap.Obj)
-		if asig.Params().Len() != 1 || asig.Results().Len() != 2 {
-			r.Anchor("(*" + optT.Obj().Name() + ")." + mname + "([]string) ([]string, error)")
-			continue
-		}
-		ev := c20NewEval(cx, ap, tab.OptionSeparator)
-		g := newCFG(info, ap.Decl.Body)
-		dom := dominators(g)
-		var succ []*ast.ReturnStmt
-		ast.Inspect(ap.Decl.Body, func(n ast.Node) bool {
-			if ret, ok := n.(*ast.ReturnStmt); ok && len(ret.Results) == 2 && c20IsNil(info, ret.Results[1]) {
-				succ = append(succ, ret)
-			}
-			return true
-		})
-		if len(succ) != 1 {
-			r.Unknown(ca, ap.Decl.Pos(), "%d success returns in %s; enumerated idiom: one `return append(p, \"key=\"+value), nil`", len(succ), ap.Name())
-			continue
-		}
-		call, ok := ast.Unparen(succ[0].Results[0]).(*ast.CallExpr)
-		if !ok || builtinName(info, call) != "append" || len(call.Args) != 2 || call.Ellipsis.IsValid() || objOf(info, call.Args[0]) != asig.Params().At(0) {
-			r.Bad(ca, succ[0].Pos(), "`%s` does not return the incoming parameter list with exactly one string appended: other options would be lost or duplicated", src(r.P.Fset, succ[0]))
-			continue
-		}
-		sym, ok := ev.str(call.Args[1])
-		if !ok {
-			r.Unknown(ca, call.Args[1].Pos(), "option string `%s` could not be evaluated: %s", src(r.P.Fset, call.Args[1]), ev.why)
-			continue
-		}
-		got := sym.render(nil)
-		want := op.Key + "={recv." + field + "}"
-		if op.Value == "time" {
-			zone := "local"
-			if op.UTC {
-				zone = "utc"
-			}
-			want = op.Key + "={" + zone + ":" + op.TimeLayout + ":recv." + field + "}"
-		}
-		if got != want {
-			r.Bad(ca, call.Args[1].Pos(), "%s appends `%s`; the documented parameter is `%s` (recv.%s is the value given to %s)", ap.Name(), got, want, field, op.Ctor)
-		} else {
-			r.OK(ca, call.Args[1].Pos(), "appends `%s` to the incoming list; recv.%s is the constructor's argument", got, field)
-		}
-
-		if op.Min == nil && op.Max == nil {
-			continue
-		}
-		cr := "range@" + op.Ctor
-		sb, _ := blockOf(g, succ[0].Pos())
-		proved := false
-		why := fmt.Sprintf("no dominating test rejects values outside %d..%d before `%s`: out-of-range values are sent to the server", *op.Min, *op.Max, src(r.P.Fset, succ[0]))
-		for _, b := range g.Blocks {
-			if !b.Live || len(b.Succs) != 2 || sb == nil || b == sb || !dom[sb][b] {
-				continue
-			}
-			cond := lastExpr(b)
-			lo, hi, okLo, okHi, bad := c20RangeReject(ev, cond, field)
-			if bad != "" {
-				why = "range test `" + src(r.P.Fset, cond) + "`: " + bad
-				continue
-			}
-			if !okLo || !okHi || lo != *op.Min || hi != *op.Max {
-				los, his := "-inf", "+inf"
-				if okLo {
-					los = strconv.FormatInt(lo, 10)
-				}
-				if okHi {
-					his = strconv.FormatInt(hi, 10)
-				}
-				why = fmt.Sprintf("`%s` accepts %s..%s; API v0.6 allows %d..%d", src(r.P.Fset, cond), los, his, *op.Min, *op.Max)
-				continue
-			}
-			reg := reachableFrom([]*cfg.Block{b.Succs[0]}, nil)
-			if reg[sb] {
-				why = "the success return is reachable from the reject edge of `" + src(r.P.Fset, cond) + "`"
-				continue
-			}
-			okErr := true
-			for rb := range reg {
-				for _, n := range rb.Nodes {
-					if ret, ok := n.(*ast.ReturnStmt); ok && (len(ret.Results) == 0 || c20IsNil(info, ret.Results[len(ret.Results)-1])) {
-						okErr = false
-					}
-				}
-			}
-			if !okErr {
-				why = "the reject edge of `" + src(r.P.Fset, cond) + "` returns without an error"
-				continue
-			}
-			proved = true
-			r.OK(cr, cond.Pos(), "`%s` dominates the append, rejects exactly the values outside %d..%d with an error", src(r.P.Fset, cond), lo, hi)
-			break
-		}
-		if !proved {
-			r.Bad(cr, succ[0].Pos(), "%s", why)
-		}
-	}
-
-	// featureOptions joins the option strings with the separator and returns option errors
-	c := "join@featureOptions"
-	fo := findFunc(cx.pk, "featureOptions")
-	if fo == nil {
-		r.Anchor("osmapi.featureOptions")
-		return
-	}
-	fsig := c20Sig(fo.Obj)
-	if fsig.Params().Len() != 1 || fsig.Results().Len() != 2 {
-		r.Anchor("featureOptions([]FeatureOption) (string, error)")
-		return
-	}
-	ev := c20NewEval(cx, fo, tab.OptionSeparator)
-	par := parentsOf(r.P, fo)
-	nJoin := 0
-	bad := ""
-	unk := ""
-	ast.Inspect(fo.Decl.Body, func(n ast.Node) bool {
-		ret, ok := n.(*ast.ReturnStmt)
-		if !ok || len(ret.Results) != 2 || !c20IsNil(info, ret.Results[1]) || bad != "" || unk != "" {
-			return true
-		}
-		if s, ok := constString(info, ret.Results[0]); ok {
-			// `return "", nil` only under `len(opts) == 0`
-			ifs, _ := enclosing(par, ret, func(x ast.Node) bool { _, k := x.(*ast.IfStmt); return k }).(*ast.IfStmt)
-			okEmpty := false
-			if s == "" && ifs != nil && ret.Pos() >= ifs.Body.Pos() && ret.End() <= ifs.Body.End() {
-				if be, k := ast.Unparen(ifs.Cond).(*ast.BinaryExpr); k && be.Op == token.EQL {
-					if a := lenCallArg(info, be.X); a != nil && objOf(info, a) == fsig.Params().At(0) {
-						if z, k := constInt(info, be.Y); k && z == 0 {
-							okEmpty = true
-						}
-					}
-				}
-			}
-			if !okEmpty {
-				bad = fmt.Sprintf("`%s` returns the constant %q although options may have been given", src(r.P.Fset, ret), s)
-			}
-			return true
-		}
-		sym, ok := ev.str(ret.Results[0])
-		if !ok {
-			unk = ev.why
-			return true
-		}
-		nJoin++
-		got := sym.render(map[int]string{0: "opts"})
-		if got != "{feature:opts}" {
-			bad = fmt.Sprintf("`%s` yields `%s`, not the option strings of the parameter joined with %q", src(r.P.Fset, ret), got, tab.OptionSeparator)
-		}
-		return true
-	})
-	switch {
-	case unk != "":
-		r.Unknown(c, fo.Decl.Pos(), "featureOptions could not be evaluated: %s", unk)
-	case bad != "":
-		r.Bad(c, fo.Decl.Pos(), "%s", bad)
-	case nJoin == 0:
-		r.Bad(c, fo.Decl.Pos(), "featureOptions never returns the joined option strings")
-	default:
-		r.OK(c, fo.Decl.Pos(), "applies every option in argument order to an initially empty list, returns the first option error, joins with %q (\"\" only for no options)", tab.OptionSeparator)
-	}
 }
